@@ -12,1570 +12,717 @@ Definition show_fres (r : fres) : string :=
   end.
 Definition check (rs : list rune) : string := digest (show_fres (format_res rs)).
 Definition full (rs : list rune) : string := show_fres (format_res rs).
-Eval vm_compute in ("<<<M855>>>" ++ check (runes_of_ascii "root packet crc	{ @calculatedFrom(""1""	) f32 x
-, @calculatedFrom( ""// no comment""
-)//x
-string	chars ,	@calculatedFrom(  ""a\""b""
-) @rightPad ( )
-    @tag(
-    7 )match A as matchKey {[ 42 ]:msg_type""x y"" : lengthOf
-    ""a\\""
-: packetx /// triple
-,[""`tick`"",""x y""
-, ""a\""b"" ,// packet A { u8 x, }
-""x y""
-, 00 ,
-""it's""
-    , 7
-, """"
-    ]: Logon }// a // b
-,	@lengthOf(  falsey )repeat falsey `u8 x,` , u8x
-{ int16
-lengthOf
-    `u8 x,` , f32a// " ++ [128512]%N ++ runes_of_ascii " emoji
-packetx,
-} , lengthOf @lengthOf(
-calculatedFrom ) , @rightPad
-('0')	f32	f32a ,
-//
-// packet A { u8 x, }
-@calculatedFrom( """ ++ [128512]%N ++ runes_of_ascii """)tag ,
-// " ++ [27880; 37322]%N ++ runes_of_ascii "
-//x
-string zchar `// not a comment` ,} MetaData matchKey {
-    }	packet uint8x {
-// a // b
-//x
-repeat lengthOf
-// a // b
-// @lengthOf(
-{u16 u128 //
-,Pad  , } , @tag( 4294967296	)
-@calculatedFrom(	""x y"" ) @tag(	0) char[4294967296 ] options1 @calculatedFrom( ""CRC32"" )	,@rightPad ('\x00') repeat
-    string
-asx `a\` // " ++ [128512]%N ++ runes_of_ascii " emoji
-, @calculatedFrom(
-""" ++ [128512]%N ++ runes_of_ascii """ )	char[255
-] len
-@calculatedFrom(
-""" ++ [233]%N ++ runes_of_ascii "t" ++ [233]%N ++ runes_of_ascii """ ) ,
-@calculatedFrom( //x
-""{,}"" )
-repeat zchar
-    calculatedFrom, @calculatedFrom( """ ++ [233]%N ++ runes_of_ascii "t" ++ [233]%N ++ runes_of_ascii """
-    )string  o @lengthOf( u) ,uint64 falsey
-    // " ++ [128512]%N ++ runes_of_ascii " emoji
-    @calculatedFrom( ""\" ++ [233]%N ++ runes_of_ascii """ ) , zchar[ 65535 ] stringy @calculatedFrom( ""1""
-), As , }packet BodyLength{  repeat uint32 body , zchar[ 65535 ]
-    //	t
-    Header ,As i8i8 `tab	here`,@calculatedFrom( """ ++ [128512]%N ++ runes_of_ascii """
-    ) @rightPad( // trailing space 
-'0'
-) @tag(65535 )
-    Pad { string
-u128
-, },@tag(  255 )
-    @leftPad() @lengthOf(f32a) repeat o	,repeat i8i8{repeat f32a /// triple
-float`line1
-line2`, repeat char[ 0123456789 ]pack	`tab	here` , // `tick` ""quote"" 'q'
-char[] x ,} ,
-    @calculatedFrom(	"""" )
-@lengthOf(lengthOf
-    ) repeat char[ 65535 ] Foo , pack lengthOf , repeat Pad , }
-packet // " ++ [128512]%N ++ runes_of_ascii " emoji
-u8x {
+Eval vm_compute in ("<<<M1778>>>" ++ check (runes_of_ascii "
+
+  packet
+
     //
-    @tag( // `tick` ""quote"" 'q'
-255 ) repeat
-zchar[ // trailing space 
-4294967296
-]
-pack ,// " ++ [128512]%N ++ runes_of_ascii " emoji
-char[ 0123456789 ] charz// trailing space 
-@calculatedFrom( //x
-""a\""b"" )// packet A { u8 x, }
+	  // " ++ [128512]%N ++ runes_of_ascii " emoji
+    body  {	@calculatedFrom( """ ++ [233]%N ++ runes_of_ascii "t" ++ [233]%N ++ runes_of_ascii """ 
+)	body
+
+    {
+o @calculatedFrom( """ ++ [233]%N ++ runes_of_ascii "t" ++ [233]%N ++ runes_of_ascii """ 
+),  } ,  char	i8i8 @lengthOf( int
+    )	`doc`
+	,
+    @rightPad ( 
+)
+	char[ 
+0	]
+tag  @lengthOf(
+repeatCount 
+)
 ,
-    //
-    @lengthOf( Header
-)
-// c
-//x
-f32a
-    {  u128 @calculatedFrom(
-    """"
-    // " ++ [128512]%N ++ runes_of_ascii " emoji
-    )
-    `line1
-line2` , T @calculatedFrom( ""a\""b""
-)
-, int32	lengthOf @lengthOf(
-    msg_type  ) ,
-Foo@calculatedFrom(
-    ""a\""b""
-) ,
-} , }")).
-Eval vm_compute in ("<<<M390>>>" ++ check (runes_of_ascii "packet
-metadata
-    { zchar[ 10]i64_ `say ""hi""` , repeat // " ++ [27880; 37322]%N ++ runes_of_ascii "
-Header
-// a // b
-// " ++ [128512]%N ++ runes_of_ascii " emoji
-uint8x ,@lengthOf( falsey ) int8
-_x @calculatedFrom( ""x y"" )`{ , }` // c
-,	stringy
-metadata`a\` // " ++ [128512]%N ++ runes_of_ascii " emoji
-, // " ++ [128512]%N ++ runes_of_ascii " emoji
-@lengthOf(
-Packet)
-    i64_
-{match crc  as Header
-{[ 0 , 0123456789  ] : // c
-Foo
-    ,
-    ""abc""
-// trailing space 
-// @lengthOf(
-:pack , } ,match int as charz { 1
-    /// triple
-    : packetx , 7: MetaDataX	, // " ++ [128512]%N ++ runes_of_ascii " emoji
-7
-: a1 007  :zchar, ""CRC32""
-    :
-stringy , [ ""\" ++ [233]%N ++ runes_of_ascii """,""CRC32"" ] : i8i8	}
-//
-//x
-, pack
-    /// triple
-    `doc`
-, tag
-{ _x@calculatedFrom( ""CRC32""
-    )
-    `
-` ,
-repeat asx
-`{ , }` /// triple
-,i32 _x //x
-@calculatedFrom(
-""\n"")  `u8 x,`, }
-, }, f32a @lengthOf( chars // trailing space 
-) , string Packet
-    , @leftPad  (
-    ' ' ) @lengthOf(
-u8x ) // trailing space 
-a1// " ++ [128512]%N ++ runes_of_ascii " emoji
-@calculatedFrom(
-    ""x y"" ) `doc` ,
-options1 , body
-`{ , }` , } MetaData Foo{ uint8 Z9_ `{ , }` , } packet Header
-    { pack	{// trailing space 
-leftPad	{ u128 i64_ , zchar[ 7
-// @lengthOf(
-// `tick` ""quote"" 'q'
-] i64_ @calculatedFrom( ""packet"" ) // packet A { u8 x, }
-`line1
-line2` //x
-, //
-metadata Logon , char[10 // packet A { u8 x, }
-]
-asx @lengthOf( uint8x
-) `it's`
-    ,
-} /// triple
-, } ,@calculatedFrom( ""a\\"") Logon
-@lengthOf(
-    uint8x ) `
-` , int64 msg_type
-    , metadata
-_x
-// @lengthOf(
-/// triple
-, @leftPad  (	)
-    trueish { Header {
-//x
-// `tick` ""quote"" 'q'
-uint8x
-    { char[0123456789]	leftPad	@calculatedFrom(
-""" ++ [233]%N ++ runes_of_ascii "t" ++ [233]%N ++ runes_of_ascii """ )
-    `" ++ [28040; 24687; 31867; 22411]%N ++ runes_of_ascii "`, } ,// " ++ [128512]%N ++ runes_of_ascii " emoji
-char[ // a // b
-1
-    ]
-// c
-// packet A { u8 x, }
-asx @calculatedFrom(  ""it's"" ) , roots	, } , }	, zchar[
-    // " ++ [128512]%N ++ runes_of_ascii " emoji
-    255 ]	Packet , // `tick` ""quote"" 'q'
-repeat i8i8 , repeat
-float64 u8x, @calculatedFrom(""" ++ [233]%N ++ runes_of_ascii "t" ++ [233]%N ++ runes_of_ascii """)
-asx @calculatedFrom( ""a\""b"" ),
-}  MetaData
-    /// triple
-    roots // packet A { u8 x, }
-{}")).
-Eval vm_compute in ("<<<M5>>>" ++ check (runes_of_ascii "root
-packet zchar {
-repeatCount // a // b
-@lengthOf(  asx )	, match
-string_ as o// @lengthOf(
-{ 7 :packetx
-    ,
-    7 : Pad},// packet A { u8 x, }
-zchar[ 65535 ]
-    T
-@calculatedFrom( /// triple
-""" ++ [128512]%N ++ runes_of_ascii """
-)
-    , tag @lengthOf( // " ++ [27880; 37322]%N ++ runes_of_ascii "
-u ) `crlf
-line`,
+
+    @calculatedFrom(""""
+)	x
     @calculatedFrom(
-    // " ++ [128512]%N ++ runes_of_ascii " emoji
-    """" ) _x	@calculatedFrom(// @lengthOf(
-""a	b"" )
-`// not a comment` ,match Z9_ as float { 0123456789 : calculatedFrom, ""{,}"":u //	t
-} , @leftPad( ) @tag( 255	) @lengthOf(i8i8
-    ) match
-tag as
-    trueish { 4294967296:	uint8x
-    ,[ //x
-65535 ] : u8x ,	10 : i64_,
-""""
-    :metadata
-    } , int64 T , } root packet len { @tag(	0) Logon ,
-@tag(255) repeat u64 packetx `it's`
-    , @tag(
-    4294967296 )
-zchar[007 ]repeatCount `a\` , char[ 4294967296
-]
-// " ++ [128512]%N ++ runes_of_ascii " emoji
-// packet A { u8 x, }
-asx @calculatedFrom(
-""it's"" ), }	root packet asx {	uint16 options1@lengthOf(
-    matchKey ) `it's`	, }	root //
-packet
-Logon{ @lengthOf( asx) @calculatedFrom(  ""packet""
-)	Z9_ @calculatedFrom(// " ++ [128512]%N ++ runes_of_ascii " emoji
-""" ++ [28040; 24687]%N ++ runes_of_ascii """)
-    ,
-@tag(	007
-    /// triple
-    )
-zchar[0123456789 ] i64_ ,
-msg_type`line1
-line2` , repeat zchar[
-007 ]Pad
-`
-`	, falsey {
-    chars lengthOf ``
-    ,	match Header as lengthOf
-    {
-""" ++ [233]%N ++ runes_of_ascii "t" ++ [233]%N ++ runes_of_ascii """	: falsey 42:
-uint8x , [ 007
-,""abc""
-    ,
-// c
-// a // b
-""abc"" ,""a\\""  ,
-65535 // c
-,""a\""b"" ,
-42, ""{,}"" ]:charz } , int64 //x
-Foo // c
-, Z9_@lengthOf( int )`it's`
-, }
-,
-    @rightPad
-    ( ) // trailing space 
-string As @calculatedFrom(""" ++ [28040; 24687]%N ++ runes_of_ascii """ ) ,
-    // c
-    match matchKey as repeatCount{
-4294967296 :msg_type	, """ ++ [28040; 24687]%N ++ runes_of_ascii """ : zchar 3  : u8x , """":	asx
-// trailing space 
-// `tick` ""quote"" 'q'
-, } ,}
-")).
-Eval vm_compute in ("<<<M4452>>>" ++ check (runes_of_ascii "// " ++ [27880; 37322]%N ++ runes_of_ascii "
-		packet a1
-// " ++ [27880; 37322]%N ++ runes_of_ascii "
-  	{ @calculatedFrom(
 
-""" ++ [233]%N ++ runes_of_ascii "t" ++ [233]%N ++ runes_of_ascii """)Logon{ options1
+    """ ++ [28040; 24687]%N ++ runes_of_ascii """  ) ,
+	@calculatedFrom(	""""  )// c
+    	Packet `u8 x,`
 
-falsey
-
-    `// not a comment` , Z9_
-
-    @calculatedFrom( ""packet""
-)	,  int8 
-        // trailing space 
-Packet
-`two words` 
-// " ++ [128512]%N ++ runes_of_ascii " emoji
-
-  // a // b
-  , 
-},
-
-@tag(
-007	)char[]chars
-@lengthOf( Packet
-    )`crlf
-line` 
-,
-
-match 
-msg_type
-as 
-Header
-	{""" ++ [28040; 24687]%N ++ runes_of_ascii """
-
-: _x 	 //x
-    }
-,repeat 
-    //
-      u128
-
-{ 
-Logon@calculatedFrom( 
-""it's"" 
-)  `{ , }`
-
-    ,
-
-} 
-// " ++ [128512]%N ++ runes_of_ascii " emoji
-  // c
-    ,
-int64 calculatedFrom 	 // c
-		, 
-repeat
-
-zchar[
-
-    0 
-]  a1
-	`say ""hi""`
-    ,match options1 as repeatCount
-    {	[
-    //x
-  ""1""	,""`tick`""
-
-, 
-	//
-    // " ++ [128512]%N ++ runes_of_ascii " emoji
-      10
-
-    , 
-""\" ++ [233]%N ++ runes_of_ascii """
-    ,
-0123456789 , 
-""a\""b"" ]
-
-:
-    pack ,  // @lengthOf(
-    	0123456789 
-    // " ++ [128512]%N ++ runes_of_ascii " emoji
-
-	: 
-    // packet A { u8 x, }
-Logon 
-,255	:x}	,
-@calculatedFrom(
-	""abc"" )
-@lengthOf(  
-      // packet A { u8 x, }
-
-	// " ++ [128512]%N ++ runes_of_ascii " emoji
-      x
-)	repeat Pad
-
-{ u8x  {	uint8
-
-    T
-@lengthOf(
-
-float) , 
-match
-Header  // `tick` ""quote"" 'q'
-
-as  // a // b
-	trueish	{ ""a	b""	:
-	body //	t
-
-  ,	}
-
-,	int8	MetaDataX
-
-@calculatedFrom( ""a	b""	)
+    , 	 // trailing space 
+  string
+    x_y_z ,
+    string_
+    charz `doc`
+, match packetx as	string_ { 00	:
+    asx
 	,
+[""\n"" ]  // " ++ [128512]%N ++ runes_of_ascii " emoji
+:	float ,
 
-i8i8
-Pad
-	`" ++ [28040; 24687; 31867; 22411]%N ++ runes_of_ascii "`  , } 
-,
-repeat
-
-i8 
-	//
-  A,// trailing space 
-
-} , uint32
-
-x@lengthOf(
-
-Logon 
-) /// triple
-	  `two words` , }
-packet trueish
-{
-	} 
-MetaData
-    // @lengthOf(
-  msg_type	{	}  packet
-i8i8
-
-    {
-@tag( 
-007	) 
-	//x
-
-	zchar[ 
-10
-]	/// triple
-  msg_type 
-,
-    }
-")).
-Eval vm_compute in ("<<<M1376>>>" ++ check (runes_of_ascii "packet i64_{
-char
-i64_ @calculatedFrom(
-""\n"")
-    ,// c
-@tag( 1 )MetaDataX {
-    uint32 options1 @calculatedFrom( ""a	b""),repeat
-    zchar `" ++ [28040; 24687; 31867; 22411]%N ++ runes_of_ascii "` ,
-    body @calculatedFrom(""x y"" )	`doc`	,
-    zchar[ 10
-// a // b
-// trailing space 
-]
-string_ @calculatedFrom( // trailing space 
-""1""
-    ) `doc`,	} , T
-    ,
-    @calculatedFrom( ""CRC32"" ) matchKey {	_x@lengthOf(u8x )`" ++ [28040; 24687; 31867; 22411]%N ++ runes_of_ascii "` , }
-, } options{float
-=
-char[00 ] ;
-    string_ = // @lengthOf(
-i16
-; //x
-} root  packet rootA {  metadata {
-    float32 pack
-    , repeat	i64 string_	, i16 body `u8 x,`, } ,@calculatedFrom(""CRC32""
-) repeat calculatedFrom{ repeat char[ 00  ] MetaDataX , }
-    , @tag(	65535
-)
-match falsey as
-    lengthOf {
-    7 : // c
-leftPad 1	:o
-    ""packet""
-:// " ++ [27880; 37322]%N ++ runes_of_ascii "
-asx ,// packet A { u8 x, }
-0123456789 : pack , [ 0123456789 , ""\n"" , ""abc"" , 00
-,""x y"" // " ++ [128512]%N ++ runes_of_ascii " emoji
-, 10
-]	: f32a , 42 :x ,} ,
-    lengthOf @lengthOf( float  )
-    //
-    ,
-// c
-//
-match _x
-as x  {
-    10 :options1	, ""packet"": chars
-//
-// `tick` ""quote"" 'q'
-, 42 :
-    o ,""1"":
-    // " ++ [128512]%N ++ runes_of_ascii " emoji
-    msg_type
-    [ ""a	b"" , ""\" ++ [233]%N ++ runes_of_ascii """ ,
-255,  ""it's"", 10 ] : // " ++ [27880; 37322]%N ++ runes_of_ascii "
-Pad
-,} , @calculatedFrom( ""\n"" )
-    @leftPad () @lengthOf( x ) zchar[00
-]
-    Header,
-a1
-    // a // b
-    {repeat f32 chars , float64 Foo ,
-    }, //	t
-}
-//x
-")).
-Eval vm_compute in ("<<<M3619>>>" ++ check (runes_of_ascii "options {
-    StringPrefixLenType = u16;
-    ArrayPrefixLenType = u8;
-    FixedStringPadFromLeft = true;
-    FixedStringPadChar = ' ';
-}
-packet Quote {
-    int64 OrderId,
-    char[] Ref,
-    @leftPad('0') char[5] price,
-}
-packet Heartbeat {
-    zchar[3] venue,
-    string Flags,
-}
-packet Trade {
-    repeat InTag787 {
-        i32 venue,
-        char[5] sym,
-        repeat InPx98 {
-            char[11] Qty,
-            Heartbeat,
-            char[] price,
-            u32 x,
-            float64 count,
-            repeat Quote,
-        },
-        zchar[7] Note,
-        repeat char[1] Tail,
-    },
-    repeat char[2] seqNo,
-    InTail55 {
-        repeat Quote,
-        string msgKind,
-        InPx18 {
-            char[] count,
-            repeat Quote,
-            uint16 Qty,
-        },
-        char[4] seqNo,
-        repeat Heartbeat,
-        repeat string sym,
-    },
-    repeat Quote,
-    Heartbeat,
-    @leftPad(' ') char[10] OrderId,
-}
-root packet Fill {
-    Heartbeat,
-    uint32 count,
-    u8 OrderId,
-    match OrderId as Body {
-        96 : Quote,
-        195 : Trade,
-        187 : Heartbeat,
-    },
-    u32 venue @calculatedFrom(""CRC32""),
-}
-")).
-Eval vm_compute in ("<<<M3707>>>" ++ check (runes_of_ascii "packet
-rootA
-
-{
-    metadata {int32  body
-    `doc`
-, repeat calculatedFrom
-	u8x
-
-,
-u32 float
-	,
-}
-
-,	@lengthOf( 
-	    // @lengthOf(
-
-// trailing space 
-    T )
-    u8x Header
-	,
-    repeat
-u16
-	Z9_  ,
-@leftPad ( '0' )repeat
-Z9_	{
-stringy	msg_type
-
-`
-`,As{  match
-	i8i8
-
-as
-
-    chars
-{	10:
-    len,
-
-    [""abc""
-	,	42 
-
-//	t
-  // c
-,
-
-7]	:
-leftPad ,  42
-    :
-
-lengthOf  ,
-	00
-:zchar , 
-	//x
-},
-    i32
-
-i64_// @lengthOf(
-    ,
-repeat lengthOf
-
-    msg_type
-	``	//x
-  	,
-
-}
-,
-	int16
-
-Packet @calculatedFrom(
-
-""packet"" 
-) ,
-    }, len	@lengthOf( float 
-
-//
-  )
-    `two words`
-	, @calculatedFrom(//	t
-  ""a\""b"" 
-) 
-repeat
-    pack
-
-    ,
-	@tag(
-0
-    )  float32
-tag`tab	here`
-
-    ,  rootA 
-@calculatedFrom(
-
-""// no comment"" )
-    , 
-@lengthOf(x_y_z  )
-msg_type{ match
-    crc
-	as
-string_
-{ 0 :
-    u8x
-
-,
-10
-:// " ++ [27880; 37322]%N ++ runes_of_ascii "
-      crc 
-,	""x y"":
-    Pad, 3:
-
-a1,
-
-007 :
-    x ,
 [
+    """ ++ [28040; 24687]%N ++ runes_of_ascii """  
+      // @lengthOf(
+    /// triple
+,  3 ] 
+: Foo ,  [
 
-    """" 
-]
-    :
-A  } ,
-}
-	, 
-@calculatedFrom( ""CRC32"" 
-)
-    @rightPad
+0123456789 ,
+    ""1""
+] :  o 
+""\" ++ [233]%N ++ runes_of_ascii """  : 
+_x
+, 0123456789
 
-(
-    ' ' )
-@tag( 10)
-    match
-	zchar as 
-body {
-65535  // trailing space 
-
-: 
-// packet A { u8 x, }
-    tag
+: matchKey
 	}
 ,
-} ")).
-Eval vm_compute in ("<<<M753>>>" ++ check (runes_of_ascii "MetaData
-u8x {
-    string Packet, leftPad _x `doc` ,
-}options
-{
-//x
-/// triple
-Header = //	t
-""1""
-/// triple
-//	t
-x = '\x00' falsey= int64
-f32a =char[ 007
-    ] ;
-Foo ='0'
-    // @lengthOf(
-    ;
-    /// triple
-    }
-options {  leftPad = false
-    // c
-    Z9_=""a	b""
-    asx = '0' }packet
-    int { repeat stringy
-falsey , @tag( // trailing space 
-0 )//	t
-repeat pack
-    ,@tag(65535 )match
-// a // b
-// `tick` ""quote"" 'q'
-Z9_ as lengthOf {
-007 : MetaDataX ,
-[ ""CRC32""
-    ,""" ++ [233]%N ++ runes_of_ascii "t" ++ [233]%N ++ runes_of_ascii """	,	""packet""
-, ""\n""
-//x
-//x
-,""1"" // a // b
-]: options1 ,[ ""CRC32"" , ""`tick`"" ,""\n"" ] :
-int , 0123456789 : uint8x [3 ,  255 ]: lengthOf
+
+    @rightPad
+( ' ' 
+)
+
+stringy {	match calculatedFrom
+    as 
+o { // c
+
+1  :
+    x_y_z
+	,	007
+:  pack
 ,
-    } , @leftPad (
-    '\x00')
-// packet A { u8 x, }
-// trailing space 
-repeat chars ``
-    // " ++ [128512]%N ++ runes_of_ascii " emoji
-    , @calculatedFrom(""x y""
-    )@tag(
-    /// triple
-    10 ) @tag(	0123456789 ) _x rootA`a\`,  @lengthOf( stringy //
-)int @calculatedFrom(
-""{,}""	) , repeat u64
-stringy , @lengthOf( rootA) match
-f32a as len{[ 0]: charz , 42 : asx ""it's"" : body ""{,}""	:// " ++ [27880; 37322]%N ++ runes_of_ascii "
-Logon
-    ""\" ++ [233]%N ++ runes_of_ascii """ : BodyLength,
-}	,
+	3:
+asx 
+        // trailing space 
+  	,// " ++ [27880; 37322]%N ++ runes_of_ascii "
+	}, }
+
+,
+@calculatedFrom(
+    """" )
+@tag( 4294967296
+	) 
+repeat i64 // packet A { u8 x, }
+  chars,
 }
-")).
-Eval vm_compute in ("<<<M806>>>" ++ check (runes_of_ascii "packet repeatCount
-// @lengthOf(
-//
-{ repeat	Header, char[
-42
-    ]rootA ``
-    ,@lengthOf(
-    stringy )repeat int16 leftPad
-,repeat // `tick` ""quote"" 'q'
-crc
-    {
-//x
-// " ++ [128512]%N ++ runes_of_ascii " emoji
-zchar[00  ]body
-    @lengthOf( Foo) , repeat Logon { MetaDataX
-    @lengthOf(trueish ) , uint8	asx@calculatedFrom( ""\" ++ [233]%N ++ runes_of_ascii """) , metadata {
-uint8x @lengthOf( stringy ) ,
-    repeat  BodyLength
-metadata `say ""hi""` ,}
-//x
-//
-, repeat char[] u, // trailing space 
+	packet roots {
+
 }
-, int16 matchKey ``
-, char[]// trailing space 
-u8x
-@lengthOf(string_ )
-    ,	} , // @lengthOf(
-match Logon
-as	zchar { [""x y"" , 65535// c
-,  10 ] : chars [
-    ""{,}""
-    ,
-""a\""b""]
-:leftPad ,
-    //	t
-    65535 : metadata//
-,[
-    10 , 7 // a // b
-, ""// no comment""
-    ,// `tick` ""quote"" 'q'
-0
-    , 65535 , // `tick` ""quote"" 'q'
-""abc""
-, 7 // " ++ [27880; 37322]%N ++ runes_of_ascii "
-,42
-    ]  :MetaDataX
-},
-    repeat int8	packetx `// not a comment` ,// a // b
-} packet
-    x // a // b
-{ u16 roots
-,
-} options{ int  =  4294967296 u8x = false ; }")).
-Eval vm_compute in ("<<<M1272>>>" ++ check (runes_of_ascii "// @lengthOf(
-packet options1 {@lengthOf(i8i8 ) i64_
-int  `{ , }`, char[] int
-, zchar[ 00
-//	t
-// packet A { u8 x, }
-] len,
-}
-packet u128 {  @tag(  3 //	t
-)	@calculatedFrom(
-//
-// @lengthOf(
-""// no comment"" )
-options1// packet A { u8 x, }
-{ int16 //x
-calculatedFrom @calculatedFrom( """ ++ [28040; 24687]%N ++ runes_of_ascii """ )	, chars @lengthOf( calculatedFrom )  ,crc
-{
-o @calculatedFrom( """ ++ [233]%N ++ runes_of_ascii "t" ++ [233]%N ++ runes_of_ascii """ ) , float u8x
-    , repeat metadata uint8x , }
-, }, float64	options1,@leftPad
-( ) @lengthOf( Foo) @calculatedFrom(
-""packet"")
-//	t
-// c
-char[ 1 // c
-] i8i8
-@calculatedFrom( ""abc""
-) `{ , }`	,
-@leftPad  ( '0' )  T
-{ int32
-i8i8	`u8 x,`
-    //
-    , match
-Z9_ as string_ { [ 7 , 10 , 65535 ,0 , 42, 255	, ""\" ++ [233]%N ++ runes_of_ascii """
-    // packet A { u8 x, }
-    ,
-""`tick`""] : Foo ,
-""" ++ [233]%N ++ runes_of_ascii "t" ++ [233]%N ++ runes_of_ascii """ :
-u8x[ 255 , """" ,0
-,
-""""
-, """ ++ [233]%N ++ runes_of_ascii "t" ++ [233]%N ++ runes_of_ascii """,
-    255, 4294967296 , 00 ] : i64_ ,
-10
-    : Foo}
-    ,
-    // trailing space 
-    pack @calculatedFrom( ""`tick`"" ) ,} ,
-    a1//	t
-`say ""hi""`, }
-")).
-Eval vm_compute in ("<<<M382>>>" ++ check (runes_of_ascii "
-packet u {@calculatedFrom(""// no comment""  ) string
-//	t
-// a // b
-string_
-,@calculatedFrom( //	t
-""\" ++ [233]%N ++ runes_of_ascii """ ) match string_ as
-len  { """ ++ [233]%N ++ runes_of_ascii "t" ++ [233]%N ++ runes_of_ascii """ :
-    roots ,	[""a\""b""
-,
-""x y"" , """", // `tick` ""quote"" 'q'
-""" ++ [28040; 24687]%N ++ runes_of_ascii """ ,""packet"" , 7, 3  ]
-    //x
-    : /// triple
-As, [ """ ++ [128512]%N ++ runes_of_ascii """ ,
-    ""// no comment""	, 10 ,
-    //
-    10] : roots ,""" ++ [28040; 24687]%N ++ runes_of_ascii """ : packetx
-    , //
-[""1""] :	calculatedFrom ,[1
-]
-    :len , }, x_y_z
-    @calculatedFrom( ""a\""b"") `say ""hi""` , As
-    @lengthOf(
-    roots
+
+root
+
+packet rootA  {
+
+@tag(	255
+
+    )	pack	`it's` ,  @lengthOf(
+f32a )
+
+@tag(
+    // a // b
+  1	)
+
+@tag( 7 ) 
+      // " ++ [128512]%N ++ runes_of_ascii " emoji
+
+Foo@calculatedFrom(  
+  //x
+  //
+""" ++ [128512]%N ++ runes_of_ascii """
     ) ,
-    // a // b
-    @calculatedFrom( """ ++ [233]%N ++ runes_of_ascii "t" ++ [233]%N ++ runes_of_ascii """ ) char  i64_
-@lengthOf(Header ) , //
-u8 int
-    @lengthOf(	i64_ )
-    `crlf
-line` ,// `tick` ""quote"" 'q'
-@calculatedFrom( // " ++ [27880; 37322]%N ++ runes_of_ascii "
-""1"" ) zchar[3 ] Packet
-,
-// `tick` ""quote"" 'q'
-//x
-uint8
-    u128`line1
-line2`
-    ,
-    }	options
-    { Header = true
-    ;  Packet
-    // a // b
-    =
-    0123456789
-    matchKey=
-    /// triple
-    zchar[ 4294967296] }
-")).
-Eval vm_compute in ("<<<M23>>>" ++ check (runes_of_ascii "root // c
-packet msg_type	{ repeat// packet A { u8 x, }
-A { repeat a1
-    { repeat  len// trailing space 
-, }
-    ,pack string_,	zchar[ 7 ] msg_type  @lengthOf(u
-) , } ,
     repeat
-zchar[ // `tick` ""quote"" 'q'
-00] tag, u64 o@calculatedFrom(""a\\""
-    // trailing space 
-    ) ,  }
-    packet charz {@tag( 0
-) // c
-repeat
-    // a // b
-    u {
-char[007 ] T,}, repeatCount @calculatedFrom( ""\n""
-)
+calculatedFrom
+{ string
+	leftPad
+
+`doc` 
 ,
-}packet
-trueish {
-@calculatedFrom( ""a\\"") @rightPad
-    ('0' ) // `tick` ""quote"" 'q'
-@lengthOf( BodyLength
-) string asx @lengthOf( A	),
-//x
-/// triple
-@rightPad (
-' '
-) match pack
-    // @lengthOf(
-    as leftPad
-{  [
-1 ]// a // b
-:
-body , [ ""a	b""]
-:msg_type , // `tick` ""quote"" 'q'
-10 :calculatedFrom ,7 : packetx,
-""" ++ [233]%N ++ runes_of_ascii "t" ++ [233]%N ++ runes_of_ascii """
-: roots ,	}
-    ,@calculatedFrom(""1""
-    )  repeat roots
-    // c
-    u8x
-    ,}
-")).
-Eval vm_compute in ("<<<M4299>>>" ++ check (runes_of_ascii "
-options { 
-LittleEndian=false ;
-	StringPrefixLenType = u8
-;
 
-    ArrayPrefixLenType =
-
-u8; FixedStringPadFromLeft
-    =true
-	; 
-FixedStringPadChar 
-=
-' ' ;
-
-    }
-
-packet
-	Trade
-    {  zchar[
-
-2
-
-    ] 
-Side2
-    , i8
-seqNo ,
-
-    } packet
-
-    Party{  uint32 price ,}
-	packet	Ack
-{
-@rightPad	(
-    '\x00'
+    repeat
+	crc
+{ 
+pack
+	@calculatedFrom( ""\" ++ [233]%N ++ runes_of_ascii """
 )
 
-    char[	6 
-] x	, 
-repeat	char[4]
-	Flags  ,
+    ,
 
-    zchar[ 
-9
+}
+,
+}
+
+,  string_	{match i64_ as u8x{
+    0:_x ,
+},
+
+    },
+@lengthOf( u128 
+)	// trailing space 
+    match	asx
+
+    as
+	charz
+
+{
+["""" , 4294967296
 
     ]
-f1 , }
-	packet Cancel
+:
 
-    { 
-Ack
+    A , 	 // trailing space 
+    1: options1
+, 4294967296 : pack
+42	: charz
+,
+[	""`tick`""	,  // a // b
+""x y""	/// triple
+  , 	 // " ++ [27880; 37322]%N ++ runes_of_ascii "
+  255 
+]  // packet A { u8 x, }
+    : 
+stringy
+,},
+@rightPad
+	(  ' '
 
+)@lengthOf(	// c
+
+Packet
+
+    )	repeat
+	uint8x 
+trueish
+	,
+}  MetaData  i8i8 
+{ zchar[ 10 
+]Z9_	, zchar[
+	0
+	]Header`a\`
+,stringy  roots	// " ++ [27880; 37322]%N ++ runes_of_ascii "
 , } 
 packet
-    Heartbeat 
-{
-    string	Px
-
-,
-
-string
-Acct ,
-f64 Side2,
-InQty24
-	{	i16	seqNo ,  repeat i32
-Flags
-,
-    }
-
-    , } 
-root packet
-	Logon
-{
-	Trade ,i64  venue	,
-	u32
-x,
-    u8 seqNo
-, match
-
-    seqNo as
-
-Body
-{[ 1
-	,
-
-164]
-:
-Ack 
-,31:Cancel
-    , 23 :
-
-Heartbeat
-
-    ,
-
-    64
-    :
-    Party ,}, }")).
-Eval vm_compute in ("<<<M303>>>" ++ check (runes_of_ascii "root packet tag
-    //x
-    { @tag(
-// trailing space 
-//x
-4294967296) zchar[ 255
-    ]
-    Foo	@calculatedFrom( ""\" ++ [233]%N ++ runes_of_ascii """  )// trailing space 
-, @lengthOf( // packet A { u8 x, }
-packetx
-) @tag( 1) @lengthOf( string_ ) // a // b
-zchar[
-255] u	, Z9_ {repeat stringy  {repeat
-body , }
-    ,
-    // `tick` ""quote"" 'q'
-    } ,
-    //
-    repeat uint8  a1 , i64// c
-tag  ,
-    // " ++ [128512]%N ++ runes_of_ascii " emoji
-    }
-    packet uint8x { // a // b
-@lengthOf( BodyLength	) @lengthOf( int )
-    //
-    uint64 As `{ , }` ,
-    char[
-65535	] zchar
-// " ++ [27880; 37322]%N ++ runes_of_ascii "
-// trailing space 
-@lengthOf(
-    stringy ) `tab	here` ,rootA @calculatedFrom( // a // b
-""x y"" ) , repeat options1	{ i8i8 calculatedFrom,
-// " ++ [27880; 37322]%N ++ runes_of_ascii "
-// `tick` ""quote"" 'q'
-}, repeat char[ 0]
-    MetaDataX ,} //")).
-Eval vm_compute in ("<<<M442>>>" ++ check (runes_of_ascii "
-packet tag {
-float32 repeatCount @calculatedFrom( ""// no comment"") ,}
-    packet i64_{
-char[00 ] calculatedFrom ,// " ++ [128512]%N ++ runes_of_ascii " emoji
-@calculatedFrom( ""packet"" ) i16  Packet ,
-    falsey
-    { char[]
-    // c
-    calculatedFrom @lengthOf( stringy )
-    // `tick` ""quote"" 'q'
-    `` ,}//
-, repeat i32 matchKey , repeat char[ 7
-    ]/// triple
-tag`// not a comment` ,leftPad
-{// @lengthOf(
-char[]
-    i8i8 , }
-,  @lengthOf(x_y_z) char[ 3 ] matchKey ``  ,float { char[] chars, repeat
-    zchar[  1 ]x_y_z ,
-} , i8 x_y_z
-//	t
-//
-,
-string asx //
-,} root packet
-int{  chars @lengthOf(
-    Foo	)
-`a\`,  repeat
-    char[ 0123456789
-]
-    BodyLength , i8 T
-    , @rightPad
-(
-    ) u64 lengthOf	, }
-")).
-Eval vm_compute in ("<<<M3954>>>" ++ check (runes_of_ascii "
-
-  options {
-
-    int=
-
-""`tick`""
-    ; 
-Foo=
-
-' '
-    ;	Foo
-    = ""x y"" ;  x_y_z =""x y"" 
-//	t
-
-	;  } 
-packet
-
-    uint8x{
-	@lengthOf(
-	int 
-	    // `tick` ""quote"" 'q'
-	// trailing space 
-  )
-@tag(0 )  Pad// `tick` ""quote"" 'q'
-      ,u8
-	x ,  @lengthOf( Z9_ 
-)f32	BodyLength
-
-`crlf
-line` ,
-repeat	char[ 255 
-] f32a,repeat
-
-msg_type	lengthOf , @leftPad
-(
-
-'\x00'
-) repeat
-
-int32  asx  ,	repeat
-    string
-
-f32a 	 //x
-
-  , // `tick` ""quote"" 'q'
-		} MetaData
-packetx { int64  asx
-	,	Foo
-
-    len
-
-`// not a comment` , 
-i32 MetaDataX`" ++ [233]%N ++ runes_of_ascii "`
-	,
-    Foo  Header	`line1
-line2`
-,
-	zchar[
-0123456789]lengthOf
-,
-
-    float32 
-metadata	,
-
-    }")).
-Eval vm_compute in ("<<<M985>>>" ++ check (runes_of_ascii "MetaData
-    i64_
-    {
-    int
-rootA
-/// triple
-// @lengthOf(
-, char[ 0 ]
-    A
-    `{ , }` , u128 rootA`doc`
-, // @lengthOf(
-zchar[//x
-42  ] i8i8`it's` ,
-    /// triple
-    char[ 00	] u , zchar[ 0123456789] A `line1
-line2`	,	}	packet Z9_
-{ @lengthOf(
-pack
-    )
-@calculatedFrom(	""a\\"") BodyLength @calculatedFrom( ""\" ++ [233]%N ++ runes_of_ascii """)
-    , @rightPad ( ) @tag( 1 )@lengthOf(
-    i8i8  )
-    char[]  trueish , f32a
-@calculatedFrom( """ ++ [28040; 24687]%N ++ runes_of_ascii """	) `u8 x,` ,	@tag(
-    /// triple
-    65535 ) string trueish , } packet
-BodyLength
-{ stringy @lengthOf( Z9_ ) ,
-    char[ 007
-]metadata
+options1  // c
+  { char[
+10
+    ] Pad
 @calculatedFrom(
-/// triple
-// @lengthOf(
-"""" )
-`" ++ [233]%N ++ runes_of_ascii "`, }
-")).
-Eval vm_compute in ("<<<M1197>>>" ++ check (runes_of_ascii "options { u8x
-    = // @lengthOf(
-""it's"" x_y_z = //
-42 o
-    = true ;MetaDataX
-='0' ;	}
-MetaData	calculatedFrom { i64 trueish , // " ++ [27880; 37322]%N ++ runes_of_ascii "
-u16 stringy
-    `two words`,u8x
-    repeatCount,int8 matchKey
-    ,} packet MetaDataX {@calculatedFrom( ""\" ++ [233]%N ++ runes_of_ascii """ ) uint8x
-//x
-/// triple
-@lengthOf(
-    /// triple
-    uint8x) ,
-    //	t
-    repeat zchar[ 007 ]	Foo`" ++ [233]%N ++ runes_of_ascii "` , @lengthOf(
-/// triple
-// a // b
-metadata  ) @tag(1 )
-match metadata as BodyLength { 00 :
-tag ,
-""a	b"" :	Packet
-, [ ""abc""]:	pack },
-//	t
-// " ++ [27880; 37322]%N ++ runes_of_ascii "
-}  root packet
-packetx
-    { @leftPad( '\x00'
-)f32a
-@lengthOf( options1 ) , }
-packet MetaDataX
-{ }
-")).
-Eval vm_compute in ("<<<M336>>>" ++ check (runes_of_ascii "root
-packet  lengthOf { @lengthOf(
-    i64_ ) string repeatCount
-    @calculatedFrom( """ ++ [28040; 24687]%N ++ runes_of_ascii """
+""\n""
 )
-    `doc` ,repeat
-char[]	f32a `two words` //x
-, @lengthOf( //x
-i64_) char[]a1 ,//
-match float as	BodyLength	{
-"""" // " ++ [27880; 37322]%N ++ runes_of_ascii "
-:tag , """ ++ [28040; 24687]%N ++ runes_of_ascii """ : roots
-, ""// no comment""
-    :
-A ,
-} , metadata , repeat // `tick` ""quote"" 'q'
-char[
-0123456789 ]
-a1 `a\`, @leftPad (
-    '\x00'
-    )
-    zchar lengthOf ,
-    repeat
-    // a // b
-    char[] calculatedFrom
-    // @lengthOf(
-    , @rightPad( '\x00' ) @rightPad (
-    '\x00' // " ++ [27880; 37322]%N ++ runes_of_ascii "
-)
-    i8
-    BodyLength ,	}
-options{ } options { }
-")).
-Eval vm_compute in ("<<<M316>>>" ++ check (runes_of_ascii "options { falsey
-// " ++ [128512]%N ++ runes_of_ascii " emoji
-// " ++ [27880; 37322]%N ++ runes_of_ascii "
-= ""abc""; roots = // c
-'0'	;MetaDataX
-=
-// " ++ [128512]%N ++ runes_of_ascii " emoji
-// " ++ [128512]%N ++ runes_of_ascii " emoji
-'0' ; //
-crc= // " ++ [128512]%N ++ runes_of_ascii " emoji
-42 // a // b
-x	= '0'
-; } packet A {  repeat uint64 u128 , @tag(
-65535) int16
-options1
-    `line1
-line2` , } options { // packet A { u8 x, }
-int
-=
-""// no comment""msg_type  = zchar[ 0123456789
-    /// triple
-    ] ; calculatedFrom =// @lengthOf(
-u8	;
-    asx=
-""" ++ [28040; 24687]%N ++ runes_of_ascii """ ; body = 10 } options { charz = true	metadata = char[]
-; Packet// c
-=  true}
-packet Logon
-{
-@calculatedFrom( """ ++ [128512]%N ++ runes_of_ascii """ )
-    repeat packetx rootA,}
-
-")).
-Eval vm_compute in ("<<<M126>>>" ++ check (runes_of_ascii "root packet pack { @calculatedFrom(	""`tick`"")
-    @calculatedFrom(
-    // " ++ [128512]%N ++ runes_of_ascii " emoji
-    ""\n"" ) @tag( 0123456789 )match zchar as string_ {	[ ""packet"" ] //
-:  i8i8 , [
-0123456789 , 7	] :string_ ,
-//x
-// `tick` ""quote"" 'q'
-0 : options1 ,
-""\" ++ [233]%N ++ runes_of_ascii """
-:// `tick` ""quote"" 'q'
-Foo	,}
-, @lengthOf(	calculatedFrom )
-Foo	@lengthOf(
-    x)
-`crlf
-line`
-, lengthOf @lengthOf(int )  ,T , @lengthOf(  rootA) zchar[
-007 ]
-// " ++ [128512]%N ++ runes_of_ascii " emoji
-// packet A { u8 x, }
-x`crlf
-line` , @calculatedFrom(
-    ""\n""	) repeat f64	chars
-, matchKey _x, }")).
-Eval vm_compute in ("<<<M603>>>" ++ check (runes_of_ascii "// trailing space 
-packet packetx { leftPad//
-{ repeat msg_type // @lengthOf(
-charz , char a1 @lengthOf( stringy )`` , repeat int16
-//x
-/// triple
-u8x , int64
-u
-// packet A { u8 x, }
-//	t
-`" ++ [28040; 24687; 31867; 22411]%N ++ runes_of_ascii "`  ,
-} , // trailing space 
-@tag( 0 ) match Packet
-    as u8x{
-007 : u8x [0123456789,	""x y"" ]: u128 , 007 : // packet A { u8 x, }
-u 65535	:o
-,7
-: u, }// @lengthOf(
-,
-    } // `tick` ""quote"" 'q'
-root// " ++ [27880; 37322]%N ++ runes_of_ascii "
-packet trueish { char[ 0  ] Logon ,@tag(
-00 ) u32
-    x_y_z @lengthOf( options1 ) , }
-")).
-Eval vm_compute in ("<<<M717>>>" ++ check (runes_of_ascii "packet// `tick` ""quote"" 'q'
-A{ match packetx as As {	007 :body , [255
-    ,
-""\" ++ [233]%N ++ runes_of_ascii """,
-65535 ,""a	b"" ]: float[255 , ""a\""b"" ]
-:
-i64_  } , @calculatedFrom( ""\" ++ [233]%N ++ runes_of_ascii """ ) @calculatedFrom(
-""CRC32""
-)//
-Z9_@calculatedFrom( ""it's"" ) `
-` ,} MetaData calculatedFrom
-{
-    i16 len // c
-, zchar[
-    42
-    ]
-    A
-`{ , }`
-,string tag `doc` ,float
-    matchKey,
-char[ 7
-    ] len `
-` ,
-// `tick` ""quote"" 'q'
-//
-}root packet int {
-@lengthOf(
-int)  i8  u @lengthOf(len ),
-} options { }
-")).
-Eval vm_compute in ("<<<M820>>>" ++ check (runes_of_ascii "MetaData uint8x
-{ stringy charz ,	char[ 00] Z9_
-    //
-    `{ , }`
-// @lengthOf(
-// a // b
-, char[ 0123456789 ]charz	, } packet msg_type{repeat char[ 42 ]	trueish `// not a comment` ,	@lengthOf( A
-//
-//
-) zchar[ 4294967296//x
-]string_
-// " ++ [27880; 37322]%N ++ runes_of_ascii "
-//x
-,
-//x
-// @lengthOf(
-repeat MetaDataX `// not a comment`,  }
-    packet A{ As{ char[4294967296]
-// c
-// packet A { u8 x, }
-zchar @lengthOf( Foo ) `a\`,
-// trailing space 
-// packet A { u8 x, }
-}
-,  }
-")).
-Eval vm_compute in ("<<<M43>>>" ++ check (runes_of_ascii "
-packet A
-{ repeat lengthOf {
-len ,
-    } , @tag(// trailing space 
-42	) match Header
-    as falsey
-{ [
-""" ++ [128512]%N ++ runes_of_ascii """//
-, ""\n"", 4294967296 ]
-    : Packet
-1 :	falsey,
-""\" ++ [233]%N ++ runes_of_ascii """ // " ++ [128512]%N ++ runes_of_ascii " emoji
-:
-    charz } , zchar[255
-]
-// packet A { u8 x, }
-// trailing space 
-rootA , repeat  char[ 10 ]// `tick` ""quote"" 'q'
-f32a
-// trailing space 
-//x
-,@calculatedFrom(  ""// no comment"") char[ 00 ]trueish@calculatedFrom(
-    // " ++ [27880; 37322]%N ++ runes_of_ascii "
-    ""a\""b"" )`line1
-line2` ,}")).
-Eval vm_compute in ("<<<M981>>>" ++ check (runes_of_ascii "packet msg_type { uint32// a // b
-i8i8 `say ""hi""` ,
-match packetx	as  asx
-    {
-0123456789:
-    msg_type ,
-    1
-    :
-    _x } ,
-repeat As	{ f32 body ,string msg_type
-, f64
+	`// not a comment`	,
     roots
-//
-// " ++ [27880; 37322]%N ++ runes_of_ascii "
-, }
-    // `tick` ""quote"" 'q'
     ,
-char[] options1`say ""hi""`  ,	}	options { msg_type = true ;} packet	crc{
-asx x_y_z , } MetaData T {T	i8i8
-, int16
-zchar
-,int tag
-,
-    string x_y_z`
-` ,
-    float32
-metadata , }
-")).
-Eval vm_compute in ("<<<M971>>>" ++ check (runes_of_ascii "packet A { tag T
-`u8 x,`
+    @calculatedFrom(
+    ""x y""
+)	zchar
+    ,  @rightPad 
+(  '0' )
+repeat  string 
+
+    //x
+    	//
+		roots	`say ""hi""` ,
+
+    } ")).
+Eval vm_compute in ("<<<M105>>>" ++ check (runes_of_ascii "packet
+uint8x {match Pad as// " ++ [128512]%N ++ runes_of_ascii " emoji
+repeatCount{ [0 ] :
+lengthOf ,[""// no comment"" ] :
+metadata ,} , metadata
+// trailing space 
 //
-// `tick` ""quote"" 'q'
-, @calculatedFrom( ""a\\"" )match Header as charz
-    {
-    1 : Z9_ , 65535 :  falsey ,
+, zchar[/// triple
+1
+] trueish//	t
+, @calculatedFrom(""a\""b"" ) match//x
+roots as f32a { 4294967296
+: i64_ , ""it's""
+: a1 , [
+    // trailing space 
+    00	,
+    0123456789 ] : As ,
+255 : Packet , ""{,}"" :
+T/// triple
+0
+    :
+falsey } ,
+    body @calculatedFrom( ""\n""
+    // trailing space 
+    ) , @calculatedFrom( """ ++ [128512]%N ++ runes_of_ascii """ )	@tag(
+10 ) char[ 10 ]
+    trueish `doc` ,	@tag( 255 ) repeat
+    Z9_ { asx chars`// not a comment` , } , @lengthOf(Packet ) u16
+    crc , }
+    // `tick` ""quote"" 'q'
+    options
+{ BodyLength =
+    i32 ; x// " ++ [128512]%N ++ runes_of_ascii " emoji
+=
+255
+    ; u= 3 } options
+{ }
+packet
+    calculatedFrom {	}
+    //x
+    root
+packet Header {
+    Pad {
+repeatCount ,  uint16 zchar , match msg_type
+as
+pack
+    /// triple
+    {	""abc"" : repeatCount , ""{,}"" : repeatCount""a	b""	: calculatedFrom},
+repeat string
+Logon `a\` , }
+,@lengthOf( x_y_z
+    ) match
+tag as repeatCount { 007 :  BodyLength , [
+    //	t
+    """ ++ [28040; 24687]%N ++ runes_of_ascii """ ] :
+BodyLength 42: string_ ""// no comment""
+// trailing space 
+/// triple
+: //
+Z9_ , 4294967296:
     // " ++ [128512]%N ++ runes_of_ascii " emoji
-    ""it's"" :
-trueish ,
-    ""x y"": stringy ,
-""x y"" :
-falsey ,  } ,
-float uint8x  , } options {trueish =
-    char[] ;}
-    MetaData
-i64_ { stringy
-roots
-`a\` ,	zchar[ 4294967296 ] repeatCount , }
-MetaData body {  u8x
-    int
-, a1 f32a , }
-")).
-Eval vm_compute in ("<<<M424>>>" ++ check (runes_of_ascii "root	packet x { f64 trueish @calculatedFrom(""" ++ [28040; 24687]%N ++ runes_of_ascii """ )
-, @calculatedFrom(
-    ""a	b""
-)  zchar[ 00	]
-lengthOf , char[] roots
-`tab	here`	, @leftPad ( '\x00'
-    ) char[]
-body ,
-    // " ++ [27880; 37322]%N ++ runes_of_ascii "
-    Header {
-string
     _x
-, i32 falsey ,repeat uint8 Packet , //	t
-float32 leftPad
-    @lengthOf( u )
-`a\` , },
-int32 // " ++ [27880; 37322]%N ++ runes_of_ascii "
-chars , @calculatedFrom(""\n"" ) repeat// c
-u32 roots
-    ,  o `` , }")).
-Eval vm_compute in ("<<<M4501>>>" ++ check (runes_of_ascii "root packet MetaDataX {
-    @leftPad('\x00')
-    i8i8 @lengthOf(charz),
-    repeat u8x `crlf
-    line`,
-    zchar `line1
-    line2`,
-    @lengthOf(stringy)
-    repeat char[00] packetx,
+    } , f64 u `it's` , zchar[ 00] f32a `doc` ,match
+    i64_
+    as Logon
+    { 4294967296// a // b
+:
+metadata ,
+}
+, char[1 ]Pad
+, zchar[  0123456789 ] float // @lengthOf(
+`` , }
+
+")).
+Eval vm_compute in ("<<<M1956>>>" ++ check (runes_of_ascii "root packet As {
+    @calculatedFrom(""{,}"")
+    zchar[4294967296] As,
+    @tag(7)
+    repeat pack {
+        body {
+            // trailing space 
+            zchar[65535] MetaDataX `doc`,
+            string_ @lengthOf(Logon),
+            i64 MetaDataX @calculatedFrom("""") `a\`,//x
+            repeat char[] Foo,
+        },
+        /// triple
+        // packet A { u8 x, }
+    },
+    @lengthOf(MetaDataX)
+    @calculatedFrom(""\n"")
+    @lengthOf(float)
+    char[0123456789] a1 @calculatedFrom(""a\""b""),
+    repeat msg_type {
+        // `tick` ""quote"" 'q'
+        repeat f64 Packet `a\`,
+        int64 asx @calculatedFrom(""{,}"") `" ++ [233]%N ++ runes_of_ascii "`,
+        zchar[3] metadata,
+        zchar[00] x_y_z @calculatedFrom(""CRC32""),
+    },
 }
 
-/// triple
-root packet charz {
-    match repeatCount as float {
-        //	t
-        0123456789 : Packet,
+packet calculatedFrom {
+    match calculatedFrom as BodyLength {
+        65535 : Foo,
     },
-    string x_y_z @calculatedFrom(""\n""),
+    match int as falsey {
+        42 : body,
+        [""abc"", ""\n"", ""abc"", """ ++ [28040; 24687]%N ++ runes_of_ascii """] : stringy,
+        [0123456789, ""{,}"", 42, 1] : trueish,
+        ""`tick`"" : metadata,
+        [""1"", ""a	b"", 42] : zchar,
+    },
+    repeat zchar[4294967296] stringy `line1
+        line2`,
 }
 
 options {
+    stringy = ' ';
 }")).
-Eval vm_compute in ("<<<M3653>>>" ++ check (runes_of_ascii "options {
+Eval vm_compute in ("<<<M1555>>>" ++ check (runes_of_ascii "
+options {StringPrefixLenType
+    =
+
+u64;  ArrayPrefixLenType
+	=
+
+u16
+    ; FixedStringPadChar  =  ' '
+
+    ;
+
+}  packet
+    Logon	{
+    i32	msgKind
+    , repeat InOrderid65 {
+	u8	pad0 
+,
+
+}  ,
+
+    i8 
+tag7
+
+,
+@leftPad(
+	' '  )char[ 
+12
+    ]x
+
+,}packet
+
+Leg{ char[]
+	f1 , 
+repeat 
+char[ 
+5 ] Px 
+,
+InQty34{repeat char[6 ]
+
+    Qty , char[
+	7]
+seqNo	,string count ,
+}
+    ,
+	Logon,  } packet Party{
+@leftPad('0'	)
+
+    char[
+	10
+]
+OrderId,
+string
+	Tail
+, 
+}  packet
+Fill
+
+{zchar[
+
+5
+    ] venue , zchar[
+	3
+] clOrdID,  InRef95{
+	InLastpx25
+    {
+	u8 
+pad0
+,
+
+} , float64	OrderId  ,i32 f1
+,float32 
+x  ,
+
+    char[]
+
+seqNo
+
+,
+}
+
+, repeat
+
+string seqNo , } root
+packet
+
+    Heartbeat
+{	repeat Leg
+    ,  u32 seqNo
+, 
+u16
+
+tag7
+    ,
+
+u32 Flags@lengthOf(
+Body ) 
+,
+match
+
+tag7 as
+
+    Body	{
+
+[	195  ,
+	75	] :Party  ,
+	171
+:Fill
+
+, 
+78
+    : 
+Logon
+	, 142:	Leg
+,	}
+	,u32
+Note
+	@calculatedFrom(
+
+""CRC32""  )
+
+    ,
+
+}
+")).
+Eval vm_compute in ("<<<M166>>>" ++ check (runes_of_ascii "packet A {
+@lengthOf(
+    lengthOf)int16 packetx // trailing space 
+@calculatedFrom(""1"" )
+    , repeat u64 Packet`
+` , match trueish as /// triple
+roots { 3
+: A ,""x y""
+// " ++ [27880; 37322]%N ++ runes_of_ascii "
+//
+:
+BodyLength
+    //
+    ,
+    42:Foo  , },
+} packet As	{
+    msg_type @lengthOf(
+    /// triple
+    u )
+    , }root packet
+    zchar
+    {i8i8 i8i8
+`
+` ,zchar
+    {int8	Foo
+`a\`  , },
+    f32 pack @lengthOf(
+crc
+// packet A { u8 x, }
+// c
+) , @calculatedFrom( ""{,}""	) // " ++ [27880; 37322]%N ++ runes_of_ascii "
+match crc as
+roots { 65535 : int ""packet""
+:  float ,00 : zchar
+// packet A { u8 x, }
+// `tick` ""quote"" 'q'
+, [ ""x y""] :
+options1, ""it's""
+:x, } , @lengthOf(
+Packet)
+    match x
+    //	t
+    as As{ //	t
+0: lengthOf
+,
+    //	t
+    3 : pack , ""it's""  : x_y_z ,
+""a\""b"" : metadata
+} , uint16
+    i8i8, } // a // b")).
+Eval vm_compute in ("<<<M242>>>" ++ check (runes_of_ascii "packet
+    uint8x { @tag(	0123456789 // a // b
+) match u as
+As
+    {
+    ""1""
+    :	o ,4294967296 : charz [ ""CRC32""
+    ]	: A , 42: zchar, ""CRC32"" : leftPad //	t
+,
+    """ ++ [28040; 24687]%N ++ runes_of_ascii """// " ++ [128512]%N ++ runes_of_ascii " emoji
+: uint8x, } , }
+    options {
+u128 = uint32
+}
+    packet
+chars
+{
+    // a // b
+    float @lengthOf( _x ) // `tick` ""quote"" 'q'
+, string
+    chars@lengthOf(
+matchKey
+// @lengthOf(
+// packet A { u8 x, }
+) , match  crc as
+    Z9_ {0123456789 : int
+    ,""x y"" //
+:
+    rootA,	""`tick`""
+    : As,
+    // @lengthOf(
+    } ,@tag(7 )
+Pad @lengthOf( trueish  )`u8 x,`
+,}
+packet float
+{ repeat Packet{ lengthOf {
+    //
+    repeat f32a`it's`
+, } ,	o @lengthOf( calculatedFrom	)  , }
+,}
+
+")).
+Eval vm_compute in ("<<<M101>>>" ++ check (runes_of_ascii "
+root
+packet Packet
+{ char[0123456789 ] pack @lengthOf(
+As ) `{ , }`,
+repeat
+    // `tick` ""quote"" 'q'
+    string
+    rootA ,	match
+repeatCount
+    as
+    pack /// triple
+{ ""a\""b""
+    :uint8x// packet A { u8 x, }
+[ ""x y"" ,
+    ""it's""
+    // " ++ [128512]%N ++ runes_of_ascii " emoji
+    ]	: chars
+    ""\" ++ [233]%N ++ runes_of_ascii """
+: //	t
+crc	0123456789 :Packet ,[""1""
+]:	A ,
+    // @lengthOf(
+    } ,// `tick` ""quote"" 'q'
+} options /// triple
+{ }packet pack // trailing space 
+{ i8//x
+MetaDataX ,string float
+`" ++ [28040; 24687; 31867; 22411]%N ++ runes_of_ascii "`,@lengthOf( trueish)
+@calculatedFrom(
+    ""`tick`"" ) f64 lengthOf ,repeat pack	packetx
+// trailing space 
+// packet A { u8 x, }
+, }
+")).
+Eval vm_compute in ("<<<M1921>>>" ++ check (runes_of_ascii "root packet i8i8 {
+    BodyLength `" ++ [28040; 24687; 31867; 22411]%N ++ runes_of_ascii "`,
+    Header,
+    int16 len @lengthOf(msg_type) `
+        `,
+    @leftPad(' ')
+    @rightPad()
+    // trailing space 
+    @calculatedFrom(""x y"")
+    repeatCount @calculatedFrom(""packet"") `crlf
+        line`,
+    @lengthOf(falsey)
+    roots @lengthOf(metadata) `line1
+        line2`,
+    i8 i64_,
+    @tag(4294967296)
+    @tag(3)
+    repeat zchar[1] lengthOf,
+    @lengthOf(Logon)
+    repeat asx {
+        stringy float `line1
+                line2`,
+        Pad,
+    },
+}")).
+Eval vm_compute in ("<<<M1929>>>" ++ check (runes_of_ascii "packet i8i8
+
+    {
+
+matchKey//x
+	,match  trueish 
+	//	t
+  // c
+    as roots
+    { 
+[	00 ]  : int,
+	255:	u128 , 3	:  matchKey
+    ,
+
+[
+    65535 ]
+    :
+    // c
+//
+  trueish
+
+,  //	t
+	  }
+	,
+
+    }packet packetx 
+{ 
+}	packet 
+u8x
+    {
+@tag(
+
+3
+)  match x_y_z
+
+    as leftPad	{
+
+    [
+
+    7	]  :u8x}
+	,@tag(42)int64
+
+lengthOf ,
+@tag(255  )
+
+zchar[
+	7]
+o 
+, 
+A
+	,@tag(  0  
+  // @lengthOf(
+		) 
+repeat
+
+lengthOf u8x ,	}
+
+")).
+Eval vm_compute in ("<<<M1219>>>" ++ check (runes_of_ascii "// top
+root
+    // c0
+packet
+    // c1
+matchKey
+    // c2
+{
+    // c3
+zchar[
+    // c4
+3
+    // c5
+]
+    // c6
+pack
+    // c7
+@calculatedFrom(
+    // c8
+""a	b""
+    // c9
+)
+    // c10
+`doc`
+    // c11
+,
+    // c12
+}
+    // c13
+options
+    // c14
+{
+    // c15
+}
+    // c16
+MetaData
+    // c17
+A
+    // c18
+{
+    // c19
+int8
+    // c20
+msg_type
+    // c21
+,
+    // c22
+}
+    // c23
+")).
+Eval vm_compute in ("<<<M1567>>>" ++ check (runes_of_ascii "options {
     FixedStringPadFromLeft = true;
     FixedStringPadChar = ' ';
 }
@@ -1596,1023 +743,496 @@ root packet Trade {
     u32 x @calculatedFrom(""CRC32""),
 }
 ")).
-Eval vm_compute in ("<<<M517>>>" ++ check (runes_of_ascii "root
-packet Header {@calculatedFrom(
-""a\""b"" ) o MetaDataX
-`{ , }`	, float  , repeat u8
-    string_ , repeat a1 {
-    repeat
-zchar[ 3 /// triple
-] a1 , repeat  Foo// " ++ [27880; 37322]%N ++ runes_of_ascii "
-u ,} ,
-} MetaData uint8x { } MetaData
-    int
-    {
-    zchar[ 4294967296 ]roots
-,
-}
-MetaData i64_ { zchar[/// triple
-1
-]
-    falsey `// not a comment` , }
-")).
-Eval vm_compute in ("<<<M1958>>>" ++ check (runes_of_ascii "MetaData
-    u { }  options {
+Eval vm_compute in ("<<<M290>>>" ++ check (runes_of_ascii "packet i8i8
+{ zchar[	10 ]a1 ,	}packet x_y_z {
+//
 // c
-// @lengthOf(
-float = int8 ;rootA =false ; As =	int16 // `tick` ""quote"" 'q'
-repeatCount
-    // trailing space 
-    =
-    int16
-packet u8x =
-    //	t
-    '\x00' ; } options	{
-    repeatCount
-= 0
-u128
-    //
-    = false ; i64_
-// trailing space 
-// `tick` ""quote"" 'q'
-= '0' ; //	t
-}
-")).
-Eval vm_compute in ("<<<M1911>>>" ++ check (runes_of_ascii "MetaData
-    u { }  options {
+} options{	matchKey
+= false// " ++ [128512]%N ++ runes_of_ascii " emoji
+;
+Foo=
+i32 ; MetaDataX  = 007 pack =
+""" ++ [28040; 24687]%N ++ runes_of_ascii """
+// a // b
 // c
-// @lengthOf(
-float = int8 ;rootA = =false ; As =	int16 // `tick` ""quote"" 'q'
-repeatCount
-    // trailing space 
-    =
-    int16
-; u8x =
+; }  packet leftPad  {} root packet// a // b
+stringy{/// triple
+rootA Pad ,	falsey @calculatedFrom( ""it's"") `two words` , u8x float
+, int64
+u8x, } //x")).
+Eval vm_compute in ("<<<M116>>>" ++ check (runes_of_ascii "packet string_ { trueish
+{options1 @lengthOf( Z9_ ) `// not a comment` , // c
+_x
     //	t
-    '\x00' ; } options	{
-    repeatCount
-= 0
-u128
-    //
-    = false ; i64_
-// trailing space 
-// `tick` ""quote"" 'q'
-= '0' ; //	t
-}
-")).
-Eval vm_compute in ("<<<M2013>>>" ++ check (runes_of_ascii "MetaData
-    u { }  options {
-// c
-// @lengthOf(
-float = int8 ;rootA =false ; As =	int16 // `tick` ""quote"" 'q'
-repeatCount
-    // trailing space 
-    =
-    int16
-; u8x =
-    //	t
-    '\x00' ; } options	{
-    repeatCount
-= 0
-false
-    //
-    = false ; i64_
-// trailing space 
-// `tick` ""quote"" 'q'
-= '0' ; //	t
-}
-")).
-Eval vm_compute in ("<<<M1957>>>" ++ check (runes_of_ascii "MetaData
-    u { }  options {
-// c
-// @lengthOf(
-float = int8 ;rootA =false ; As =	int16 // `tick` ""quote"" 'q'
-repeatCount
-    // trailing space 
-    =
-    int16
-u8x ; =
-    //	t
-    '\x00' ; } options	{
-    repeatCount
-= 0
-u128
-    //
-    = false ; i64_
-// trailing space 
-// `tick` ""quote"" 'q'
-= '0' ; //	t
-}
-")).
-Eval vm_compute in ("<<<M1890>>>" ++ check (runes_of_ascii "MetaData
-    u { }  options {
-// c
-// @lengthOf(
-float  int8 ;rootA =false ; As =	int16 // `tick` ""quote"" 'q'
-repeatCount
-    // trailing space 
-    =
-    int16
-; u8x =
-    //	t
-    '\x00' ; } options	{
-    repeatCount
-= 0
-u128
-    //
-    = false ; i64_
-// trailing space 
-// `tick` ""quote"" 'q'
-= '0' ; //	t
-}
-")).
-Eval vm_compute in ("<<<M1895>>>" ++ check (runes_of_ascii "MetaData
-    u { }  options {
-// c
-// @lengthOf(
-float =  ;rootA =false ; As =	int16 // `tick` ""quote"" 'q'
-repeatCount
-    // trailing space 
-    =
-    int16
-; u8x =
-    //	t
-    '\x00' ; } options	{
-    repeatCount
-= 0
-u128
-    //
-    = false ; i64_
-// trailing space 
-// `tick` ""quote"" 'q'
-= '0' ; //	t
-}
-")).
-Eval vm_compute in ("<<<M2049>>>" ++ check (runes_of_ascii "MetaData
-    u { }  options {
-// c
-// @lengthOf(
-float = int8 ;rootA =false ; As =	int16 // `tick` ""quote"" 'q'
-repeatCount
-    // trailing space 
-    =
-    int16
-; u8x =
-    //	t
-    '\x00' ; } options	{
-    repeatCount
-= 0
-u128
-    //
-    = false ; i64_
-// trailing space 
-// `tick` ""quote"" 'q'
-= '0'")).
-Eval vm_compute in ("<<<M3999>>>" ++ check (runes_of_ascii "// top
-options {
-    // c1
-    charz = f64;
-    // c5
-    metadata = 7;
-    // c9
-}
-
-// c10
-options {
-    // c12
-    u128 = 10
-    // c15
-    options1 = true;
-    // c19
-    zchar = uint16;
-    // c23
-    lengthOf = true;
-    // c27
-}
-
-// c28
-options {
-    // c30
-    len = 1
-    // c33
-}
-// c34")).
-Eval vm_compute in ("<<<M1020>>>" ++ check (runes_of_ascii "root
-packet BodyLength { match tag as
-float  {10 ://x
-a1, }
-,char[255 ] Z9_	`" ++ [28040; 24687; 31867; 22411]%N ++ runes_of_ascii "`
-    , // @lengthOf(
-@calculatedFrom( ""packet""	) int64 packetx @calculatedFrom( ""{,}"" // @lengthOf(
-)
-`doc`	, }packet
-    x
-{	} packet
-    roots
+    @lengthOf( u128), /// triple
+match packetx as charz{[
+1 , 3 ,
+""a\\"" //x
+,10 ] : lengthOf ,
+""" ++ [28040; 24687]%N ++ runes_of_ascii """
+:float	""CRC32"" : // a // b
+calculatedFrom
+, """ ++ [128512]%N ++ runes_of_ascii """ : tag , 00
+:
+rootA, }
+    ,} ,}")).
+Eval vm_compute in ("<<<M82>>>" ++ check (runes_of_ascii "packet
+zchar {@rightPad (// a // b
+) uint8 a1 `line1
+line2` , @calculatedFrom( ""x y"" ) match pack as	matchKey
+{
+    /// triple
+    """ ++ [28040; 24687]%N ++ runes_of_ascii """  : //x
+u128 ,
+    3 : i64_
+    ""a\""b""
+    : As , } ,
 // " ++ [27880; 37322]%N ++ runes_of_ascii "
-//	t
-{
-    @tag( 0)repeat
-    chars `doc` , }
-")).
-Eval vm_compute in ("<<<M1040>>>" ++ check (runes_of_ascii "packet
-string_ {zchar[// " ++ [128512]%N ++ runes_of_ascii " emoji
-255]chars
-@lengthOf( leftPad)
-, } options
-    { repeatCount= true ;msg_type // c
-=  ' '
-    ;
-rootA = true
-;}
-root packet len//	t
-{ zchar[  7 ]
-BodyLength@calculatedFrom( """ ++ [128512]%N ++ runes_of_ascii """ ) ,
-    }MetaData
-    charz{ string Packet, /// triple
-}
-")).
-Eval vm_compute in ("<<<M4220>>>" ++ check (runes_of_ascii "  /// triple
-
-packet  trueish
-    {	// packet A { u8 x, }
-	  repeat int	`crlf
-line`
-,
-repeat int32 // c
-    o , 
-}
-
-    packet 
-string_	{
-
-T
-    Logon	,
-i64_ ,
-
-string_ ,	char[ 10 
-]zchar @lengthOf(
-
-    u128 	 /// triple
-      ) `say ""hi""`
-
-    ,
-	}
-")).
-Eval vm_compute in ("<<<M1528>>>" ++ check (runes_of_ascii "packet
-//	t
-// trailing space 
-_x {
-// packet A { u8 x, }
-// c
-char[
-3
-    ] u8x @lengthOf(
-u8x u8x ) , @calculatedFrom(""" ++ [128512]%N ++ runes_of_ascii """ // @lengthOf(
-)
-i16	Foo
-@lengthOf(	string_
-    )`doc`	, repeat	i64 metadata , @lengthOf( string_
-) i8 // c
-u  `line1
-line2`	,
-}
-")).
-Eval vm_compute in ("<<<M1643>>>" ++ check (runes_of_ascii "packet
-//	t
-// trailing space 
-_x {
-// packet A { u8 x, }
-// c
-char[
-3
-    ] u8x @lengthOf(
-u8x ) , @calculatedFrom(""" ++ [128512]%N ++ runes_of_ascii """ // @lengthOf(
-)
-i16	Foo
-@lengthOf(	string_
-    )`doc`	, repeat	i64 metadata , @lengthOf( string_
-) i8 // c
-u  `line1
-line2`	, ,
-}
-")).
-Eval vm_compute in ("<<<M1510>>>" ++ check (runes_of_ascii "packet
-//	t
-// trailing space 
-_x {
-// packet A { u8 x, }
-// c
-char[
-{
-    ] u8x @lengthOf(
-u8x ) , @calculatedFrom(""" ++ [128512]%N ++ runes_of_ascii """ // @lengthOf(
-)
-i16	Foo
-@lengthOf(	string_
-    )`doc`	, repeat	i64 metadata , @lengthOf( string_
-) i8 // c
-u  `line1
-line2`	,
-}
-")).
-Eval vm_compute in ("<<<M2034>>>" ++ check (runes_of_ascii "MetaData
-    u { }  options {
-// c
 // @lengthOf(
-float = int8 ;rootA =false ; As =	int16 // `tick` ""quote"" 'q'
-repeatCount
-    // trailing space 
-    =
-    int16
-; u8x =
-    //	t
-    '\x00' ; } options	{
-    repeatCount
-= 0
-u128
-    //
-    = false ;")).
-Eval vm_compute in ("<<<M1597>>>" ++ check (runes_of_ascii "packet
-//	t
-// trailing space 
-_x {
-// packet A { u8 x, }
-// c
-char[
-3
-    ] u8x @lengthOf(
-u8x ) , @calculatedFrom(""" ++ [128512]%N ++ runes_of_ascii """ // @lengthOf(
-)
-i16	Foo
-@lengthOf(	string_
-    )`doc`	, repeat	 metadata , @lengthOf( string_
-) i8 // c
-u  `line1
-line2`	,
-}
-")).
-Eval vm_compute in ("<<<M1567>>>" ++ check (runes_of_ascii "packet
-//	t
-// trailing space 
-_x {
-// packet A { u8 x, }
-// c
-char[
-3
-    ] u8x @lengthOf(
-u8x ) , @calculatedFrom(""" ++ [128512]%N ++ runes_of_ascii """ // @lengthOf(
-)
-i16	Foo
-	string_
-    )`doc`	, repeat	i64 metadata , @lengthOf( string_
-) i8 // c
-u  `line1
-line2`	,
-}
-")).
-Eval vm_compute in ("<<<M3894>>>" ++ check (runes_of_ascii "options  {
-
-    As
-=
-""1""	;
-    matchKey =
-0123456789	options1 =
-0123456789
-	; // a // b
-	asx	// c
-
-  =  ""CRC32""
-;  tag
-
-= 00
-
-    ; }// trailing space 
-	packet  matchKey {
-
-@calculatedFrom(
-    ""abc"")int32  repeatCount, } ")).
-Eval vm_compute in ("<<<M1206>>>" ++ check (runes_of_ascii "packet body { As
-    @lengthOf(	string_ ) `two words`	, zchar[ 10 ] i8i8@calculatedFrom( ""`tick`""),
-zchar[ 0 ]
-    pack
-@calculatedFrom(
-""x y"" ) ,uint8 rootA @calculatedFrom( ""a\\""), i32
-    msg_type ,
-    u8 repeatCount ,}")).
-Eval vm_compute in ("<<<M4130>>>" ++ check (runes_of_ascii "packet _x {
-    // packet A { u8 x, }
-    // c
-    char[3] u8x @lengthOf(u8x),
-    @calculatedFrom(""" ++ [128512]%N ++ runes_of_ascii """)
-    i16 Foo @lengthOf(string_),
-    repeat i64 metadata,
-    @lengthOf(string_)
-    i8 u `line1
-        line2`,
-}")).
-Eval vm_compute in ("<<<M1682>>>" ++ check (runes_of_ascii "options { trueish trueish = ""`tick`"" ; string_= """ ++ [233]%N ++ runes_of_ascii "t" ++ [233]%N ++ runes_of_ascii """
-    // c
-    } root
-    packet body { stringy @calculatedFrom(
-""a	b"" ) `line1
-line2` , }
-packet Logon {
-    @leftPad(
-    ' ' ) //	t
-u16 string_ `u8 x,` ,
-}
-")).
-Eval vm_compute in ("<<<M1845>>>" ++ check (runes_of_ascii "options { trueish = ""`tick`"" ; string_= """ ++ [233]%N ++ runes_of_ascii "t" ++ [233]%N ++ runes_of_ascii """
-    // c
-    } root
-    packet body { stringy @calculatedFrom(
-""a	b"" ) `line1
-line2` , }
-packet Logon {
-    @leftPad(
-    ' ' @tag ) //	t
-u16 string_ `u8 x,` ,
-}
-")).
-Eval vm_compute in ("<<<M1841>>>" ++ check (runes_of_ascii "options { trueish = ""`tick`"" ; string_= " ++ [233]%N ++ runes_of_ascii " """ ++ [233]%N ++ runes_of_ascii "t" ++ [233]%N ++ runes_of_ascii """
-    // c
-    } root
-    packet body { stringy @calculatedFrom(
-""a	b"" ) `line1
-line2` , }
-packet Logon {
-    @leftPad(
-    ' ' ) //	t
-u16 string_ `u8 x,` ,
-}
-")).
-Eval vm_compute in ("<<<M1708>>>" ++ check (runes_of_ascii "options { trueish = ""`tick`"" ; string_""" ++ [233]%N ++ runes_of_ascii "t" ++ [233]%N ++ runes_of_ascii """ =
-    // c
-    } root
-    packet body { stringy @calculatedFrom(
-""a	b"" ) `line1
-line2` , }
-packet Logon {
-    @leftPad(
-    ' ' ) //	t
-u16 string_ `u8 x,` ,
-}
-")).
-Eval vm_compute in ("<<<M1149>>>" ++ check (runes_of_ascii "MetaData // packet A { u8 x, }
-lengthOf
-{ msg_type
-// `tick` ""quote"" 'q'
-// " ++ [128512]%N ++ runes_of_ascii " emoji
-metadata , float32 matchKey`" ++ [28040; 24687; 31867; 22411]%N ++ runes_of_ascii "`//
+u8 Packet	@calculatedFrom( ""// no comment"" ) //x
 ,
-int32 body , zchar[ 0123456789
-    ] uint8x  , float32 int , int16 body , } //	t")).
-Eval vm_compute in ("<<<M4578>>>" ++ check (runes_of_ascii "// @lengthOf(
-options {
-}// c
-
-root packet Packet {
-    @calculatedFrom("""")
-    x u128 `" ++ [28040; 24687; 31867; 22411]%N ++ runes_of_ascii "`,
-}
-
-options {
-    msg_type = i16;
-    packetx = false
-    falsey = ""x y"";
-    packetx = 1;
-    As = true
-}")).
-Eval vm_compute in ("<<<M3534>>>" ++ check (runes_of_ascii "// top
-packet // c0
-Inner
-    // c1
-{ u8 a , // c5
-} root packet // c8
-P
-    // c9
-{ // c10
-Inner
-    // c11
-ref_obj // c12
-, // c13a
-  // c13b
-u8 // c14
-x
-    // c15
-, // c16a
-  // c16b
-} // c17
+    }
+//
 ")).
-Eval vm_compute in ("<<<M4026>>>" ++ check (runes_of_ascii "options {
-    FixedStringPadChar = '0';
-}
-
-packet Q {
-    zchar[4] z,
-    @rightPad('\x00')
-    char[3] n,
-    char[5] d,
-}
-
-root packet R {
-    Q,
-    zchar[8] top,
-    repeat zchar[2] zs,
-}")).
-Eval vm_compute in ("<<<M3565>>>" ++ check (runes_of_ascii "// top
-root
-    // c0
-packet // c1a
-  // c1b
-P { // c3
-u16 // c4
-a ,
-    // c6
-u32 Sum // c8
-@calculatedFrom( // c9a
-  // c9b
-""CRC32"" // c10
-) // c11a
-  // c11b
-, // c12
-}
-    // c13
-")).
-Eval vm_compute in ("<<<M4138>>>" ++ check (runes_of_ascii "options {
-    packetx = ' '
-}
-
-root packet i64_ {
-    string Foo,
-    @tag(3)
-    u128 @calculatedFrom(""\" ++ [233]%N ++ runes_of_ascii """) `
-    `,
-    repeat char[00] Logon,
-    repeat crc lengthOf `a\`,
-}")).
-Eval vm_compute in ("<<<M1586>>>" ++ check (runes_of_ascii "packet
-//	t
-// trailing space 
-_x {
-// packet A { u8 x, }
+Eval vm_compute in ("<<<M536>>>" ++ check (runes_of_ascii "root packet tag { }  packet MetaDataX{char[007	]
 // c
-char[
-3
-    ] u8x @lengthOf(
-u8x ) , @calculatedFrom(""" ++ [128512]%N ++ runes_of_ascii """ // @lengthOf(
-)
-i16	Foo
-@lengthOf(	string_
-    )")).
-Eval vm_compute in ("<<<M4350>>>" ++ check (runes_of_ascii "root packet Header {
-    match leftPad as Foo {
-        // c
-        7 : o,
-        0 : u8x,
-        65535 : leftPad,
-        00 : asx,
-        ""it's"" : o,
-    },
-}")).
-Eval vm_compute in ("<<<M1016>>>" ++ check (runes_of_ascii "packet // c
-Pad
-{@calculatedFrom( ""1"" ) pack//
-leftPad `doc` ,char[ /// triple
-007 ] i8i8 @calculatedFrom( ""// no comment""  ),	} options//
-{
-pack  = '\x00';  }")).
-Eval vm_compute in ("<<<M2155>>>" ++ check (runes_of_ascii "options{
-_x
-= true
-} options
-{ o	= /// triple
-false
-    ; chars
-= ""\n"" } root root packet	Pad
 /// triple
-// packet A { u8 x, }
-{	chars
-    // a // b
-    ,}")).
-Eval vm_compute in ("<<<M3845>>>" ++ check (runes_of_ascii "root packet Foo {
-    int32 tag `doc`,
-    char[0] u8x `u8 x,`,
-    charz charz,
-    @rightPad(' ')
-    @tag(3)
-    @rightPad('0')
-    repeat int16 float,
-}")).
-Eval vm_compute in ("<<<M2197>>>" ++ check (runes_of_ascii "options{
-_x
-= true
-} options
-{ o	= /// triple
-false
-    ; chars
-= ""\n"" } root packet	Pad
+root  @calculatedFrom( ""a\""b""
+) `say ""hi""`// " ++ [27880; 37322]%N ++ runes_of_ascii "
+,  @tag(4294967296 )
+    char[1//x
+] packetx @calculatedFrom(""a\""b""
+    ) ,
+// " ++ [128512]%N ++ runes_of_ascii " emoji
+// a // b
+@calculatedFrom(""" ++ [233]%N ++ runes_of_ascii "t" ++ [233]%N ++ runes_of_ascii """  ) repeat pack // " ++ [27880; 37322]%N ++ runes_of_ascii "
+,
+    } // c")).
+Eval vm_compute in ("<<<M565>>>" ++ check (runes_of_ascii "root packet tag { }  packet MetaDataX{char[007	]
+// c
 /// triple
-// packet A { u8 x, }
-{	chars
-    // a // b
-    ," ++ [233]%N ++ runes_of_ascii " }")).
-Eval vm_compute in ("<<<M2198>>>" ++ check (runes_of_ascii "options{
-_x
-= true
-} options
-{ o	= /// triple
-f" ++ [233]%N ++ runes_of_ascii "alse
-    ; chars
-= ""\n"" } root packet	Pad
-/// triple
-// packet A { u8 x, }
-{	chars
-    // a // b
-    ,}")).
-Eval vm_compute in ("<<<M2136>>>" ++ check (runes_of_ascii "options{
-_x
-= true
-} options
-{ o	= /// triple
-false
-    ; =
-chars ""\n"" } root packet	Pad
-/// triple
-// packet A { u8 x, }
-{	chars
-    // a // b
-    ,}")).
-Eval vm_compute in ("<<<M2157>>>" ++ check (runes_of_ascii "options{
-_x
-= true
-} options
-{ o	= /// triple
-false
-    ; chars
-= ""\n"" } '0' packet	Pad
-/// triple
-// packet A { u8 x, }
-{	chars
-    // a // b
-    ,}")).
-Eval vm_compute in ("<<<M140>>>" ++ check (runes_of_ascii "packet Logon {
-    stringy
-crc	`crlf
-line`
-, T
-@calculatedFrom( ""a\""b""
-    ) // packet A { u8 x, }
-`u8 x,` // " ++ [27880; 37322]%N ++ runes_of_ascii "
-, }  options {	leftPad =  '\x00'}
+asx  @calculatedFrom( ""a\""b""
+) `say ""hi""`// " ++ [27880; 37322]%N ++ runes_of_ascii "
+,  4294967296@tag( )
+    char[1//x
+] packetx @calculatedFrom(""a\""b""
+    ) ,
+// " ++ [128512]%N ++ runes_of_ascii " emoji
+// a // b
+@calculatedFrom(""" ++ [233]%N ++ runes_of_ascii "t" ++ [233]%N ++ runes_of_ascii """  ) repeat pack // " ++ [27880; 37322]%N ++ runes_of_ascii "
+,
+    } // c")).
+Eval vm_compute in ("<<<M25>>>" ++ check (runes_of_ascii "
+root packet  calculatedFrom { repeat Header
+, } MetaData Header{ zchar[// packet A { u8 x, }
+10
+]	As
+    ,// trailing space 
+string
+chars, crc Logon `u8 x,`  , Z9_ Logon ,	}packet trueish
+    {}
+    MetaData
+A { }  options { options1
+=
+' '
+    //
+    ; //	t
+}
 ")).
-Eval vm_compute in ("<<<M4405>>>" ++ check (runes_of_ascii "packet A
+Eval vm_compute in ("<<<M603>>>" ++ check (runes_of_ascii "root packet tag { }  packet MetaDataX{char[007	]
+// c
+/// triple
+asx  @calculatedFrom( ""a\""b""
+) `say ""hi""`// " ++ [27880; 37322]%N ++ runes_of_ascii "
+,  @tag(4294967296 )
+    char[1//x
+] packetx @calculatedFrom(
+    ) ,
+// " ++ [128512]%N ++ runes_of_ascii " emoji
+// a // b
+@calculatedFrom(""" ++ [233]%N ++ runes_of_ascii "t" ++ [233]%N ++ runes_of_ascii """  ) repeat pack // " ++ [27880; 37322]%N ++ runes_of_ascii "
+,
+    } // c")).
+Eval vm_compute in ("<<<M1523>>>" ++ check (runes_of_ascii "
+packet
+Logon{ 
+string user 
+, } 
+root packet
 
-{match k  as
+    Frame  {
+u8
 
-    n{ 
-[  ""a"",	""bb""
+K, match
+K as
+Body	{ 1
 
-    ,
-""c c""
-    , ""d""
-, ""e""
-    ,""f""
-	,
-
-    ""g""
-
-, ""h"" , ""i"" ]: B
+:
+	Logon
 , 2
 
-    : C }
-    ,
-}
+    : Logout
 
-")).
-Eval vm_compute in ("<<<M862>>>" ++ check (runes_of_ascii "MetaData
-trueish { o charz `tab	here`	,}  MetaData int {zchar[	4294967296  ] a1 `say ""hi""` ,
-}	options { charz
-    //	t
-    =	'0'  tag	=""abc""}")).
-Eval vm_compute in ("<<<M3759>>>" ++ check (runes_of_ascii "packet A {
-    match k as n {
-        [
-            1, 22, ""c c"", 4, 5,
-            ""f"", 7, 8, ""i""
-        ] : B,
-        2 : C,
-    },
-}")).
-Eval vm_compute in ("<<<M4351>>>" ++ check (runes_of_ascii "root packet metadata 	 // " ++ [128512]%N ++ runes_of_ascii " emoji
+    ,  } ,
+
+Tail ,	}
+	packet
+Logout
+    {u16
+    reason  ,
+
+    }	packet Tail
     {
 
-    }
-
-packet // c
-      u
-
-    {@leftPad  ( ) repeat 
-char[
-
-4294967296	]A  `a\`  ,
-}")).
-Eval vm_compute in ("<<<M1423>>>" ++ check (runes_of_ascii "
-packet
-    falsey { Header@calculatedFrom(""packet"" ""packet""  ) , char[
-    0123456789 ] packetx
-    , } // `tick` ""quote"" 'q'")).
-Eval vm_compute in ("<<<M1438>>>" ++ check (runes_of_ascii "
-packet
-    falsey { Header@calculatedFrom(""packet""  ) , char[ char[
-    0123456789 ] packetx
-    , } // `tick` ""quote"" 'q'")).
-Eval vm_compute in ("<<<M3318>>>" ++ check (runes_of_ascii "root packet matchKey { // c
-zchar[ 3 ] pack @calculatedFrom( ""a	b"" ) `doc` , } options { } MetaData A { int8 msg_type , }")).
-Eval vm_compute in ("<<<M3350>>>" ++ check (runes_of_ascii "root packet matchKey { zchar[ 3 ] pack @calculatedFrom( ""a	b"" ) `doc` , } options { } MetaData A { // c
-int8 msg_type , }")).
-Eval vm_compute in ("<<<M4454>>>" ++ check (runes_of_ascii "packet Logon {
-    f32 _x,
-}
-
-MetaData u8x {
-    float32 leftPad,
-    tag leftPad `say ""hi""`,
-    i16 tag `say ""hi""`,
-}")).
-Eval vm_compute in ("<<<M1430>>>" ++ check (runes_of_ascii "
-packet
-    falsey { Header@calculatedFrom(""packet""  ] , char[
-    0123456789 ] packetx
-    , } // `tick` ""quote"" 'q'")).
-Eval vm_compute in ("<<<M4198>>>" ++ check (runes_of_ascii "MetaData u {
-    BodyLength repeatCount,
-}
-
-options {
-    string_ = false;
-    i8i8 = 10;
-}
-
-root packet float {
-}//")).
-Eval vm_compute in ("<<<M1398>>>" ++ check (runes_of_ascii "
-
-    falsey { Header@calculatedFrom(""packet""  ) , char[
-    0123456789 ] packetx
-    , } // `tick` ""quote"" 'q'")).
-Eval vm_compute in ("<<<M466>>>" ++ check (runes_of_ascii "/// triple
-MetaData	asx { roots x_y_z ,
-calculatedFrom o ,
-}
-packet pack { roots
-    // @lengthOf(
+    u32  crc
     , }
 ")).
-Eval vm_compute in ("<<<M48>>>" ++ check (runes_of_ascii "  options { zchar =  007
-Header =
-char[// c
-007 ] ;
-    lengthOf= char[
-7 ]; chars =//
-"""" // a // b
-;
-}
+Eval vm_compute in ("<<<M95>>>" ++ check (runes_of_ascii "packet len {
+@tag( 255  ) repeat // packet A { u8 x, }
+zchar[ 007] roots
+, leftPad { //	t
+f32 calculatedFrom , f32
+    lengthOf , u32 calculatedFrom , } ,
+x//	t
+x
+    ,} MetaData u128 {
+A i8i8 `two words` ,}
 ")).
-Eval vm_compute in ("<<<M205>>>" ++ check (runes_of_ascii "  root packet// " ++ [128512]%N ++ runes_of_ascii " emoji
-o
-    {
-    @calculatedFrom( ""a\""b"" //x
-) repeat crc ,	@tag( 10  )
-x_y_z, }
-")).
-Eval vm_compute in ("<<<M1467>>>" ++ check (runes_of_ascii "
-packet
-    falsey { Header@calculatedFrom(""packet""  ) , char[
-    0123456789 ] packetx
-    , } // `")).
-Eval vm_compute in ("<<<M4372>>>" ++ check (runes_of_ascii "
-
-  packet	A
-	{  match
-	k
-
-as  n { [  // a
-  1 	 // b
-    ,	// c
-      2
-
-    ]// d
-	: 
-B}
-
-,}")).
-Eval vm_compute in ("<<<M1536>>>" ++ check (runes_of_ascii "packet
-//	t
-// trailing space 
-_x {
-// packet A { u8 x, }
-// c
-char[
-3
-    ] u8x @lengthOf(
-u8x")).
-Eval vm_compute in ("<<<M3559>>>" ++ check (runes_of_ascii "options { 
-FixedStringPadFromLeft	= true
-	; }
-
-    root	packet
-
-P{
-	char[4]
-	z
-    ,
-    }
-")).
-Eval vm_compute in ("<<<M4251>>>" ++ check (runes_of_ascii "packet chars {
-    i8 body @lengthOf(crc),
-    repeat char[] zchar,
-    body `
-        `,
-}")).
-Eval vm_compute in ("<<<M2958>>>" ++ check (runes_of_ascii "packet A {
-  match k as n {
-    [1, 22, ""c c"", 4, 5, ""f"", 7, 8, ""i""] : B
-    2 : C
-  },
-}")).
-Eval vm_compute in ("<<<M3298>>>" ++ check (runes_of_ascii "MetaData float { float64 charz `
-` , } root packet chars { @rightPad ( '0'
-// c
-) Foo , }")).
-Eval vm_compute in ("<<<M3509>>>" ++ check (runes_of_ascii "packet chars { } packet MetaDataX { @tag( 42 ) i16 string_ , // c
-repeat x `say ""hi""` , }")).
-Eval vm_compute in ("<<<M2941>>>" ++ check (runes_of_ascii "packet A {
-  match k as n {
-    [1, ""bb"", 007, ""d"", 5, ""f"", 7, ""h""] : B
-    2 : C
-  },
-}")).
-Eval vm_compute in ("<<<M129>>>" ++ check (runes_of_ascii "MetaData
-    charz { } packet
-    // " ++ [27880; 37322]%N ++ runes_of_ascii "
-    matchKey {
-    a1
-    repeatCount
-    , }
-")).
-Eval vm_compute in ("<<<M3217>>>" ++ check (runes_of_ascii "packet metadata { // c
-Logon { A `" ++ [28040; 24687; 31867; 22411]%N ++ runes_of_ascii "` , tag o , } , zchar len `// not a comment` , }")).
-Eval vm_compute in ("<<<M3466>>>" ++ check (runes_of_ascii "packet o { repeat Logon uint8x , } options { asx = zchar[ 3 ] stringy = '\x00' }
-// c
-")).
-Eval vm_compute in ("<<<M3440>>>" ++ check (runes_of_ascii "packet o { repeat Logon uint8x
-// c
-, } options { asx = zchar[ 3 ] stringy = '\x00' }")).
-Eval vm_compute in ("<<<M2920>>>" ++ check (runes_of_ascii "packet A {
-  match k as n {
-    [""a"", ""bb"", 007, ""d"", ""e"", 66] : B,
-    2 : C
-  },
-}")).
-Eval vm_compute in ("<<<M369>>>" ++ check (runes_of_ascii "MetaData repeatCount
-    {
-    } options { // packet A { u8 x, }
-}
-// @lengthOf(
-")).
-Eval vm_compute in ("<<<M3415>>>" ++ check (runes_of_ascii "MetaData body { i64 pack `it's` , } packet stringy {
-// c
-int16 calculatedFrom , }")).
-Eval vm_compute in ("<<<M684>>>" ++ check (runes_of_ascii "packet u128{ zchar[ 00 ]
-// a // b
-// packet A { u8 x, }
-f32a
+Eval vm_compute in ("<<<M185>>>" ++ check (runes_of_ascii "packet a1 {
+    char[ 0 ]
+len
+    `two words` , char[ 00 ]packetx ,} MetaData pack // a // b
+{	int64 a1 `crlf
+line` ,i64_  Foo,
+char[0123456789
 // " ++ [128512]%N ++ runes_of_ascii " emoji
-//
+// " ++ [27880; 37322]%N ++ runes_of_ascii "
+] x
+    `tab	here` ,
+    }
+
+")).
+Eval vm_compute in ("<<<M1490>>>" ++ check (runes_of_ascii "
+packet A{	u8	a ,
+
+    }
+packet
+
+B  {u16	b,
+
+}root
+
+packet P{ u8	K1
+    ,u8 K2 
+, 
+match
+    K1 as M1  {
+    1
+    :	A
+,
+
+    }	, match
+
+    K2
+as
+	M2
+
+    {1: B,	} , 
+} ")).
+Eval vm_compute in ("<<<M469>>>" ++ check (runes_of_ascii "packet'1'
+    // `tick` ""quote"" 'q'
+    crc
+// packet A { u8 x, }
+//	t
+{
+u32 a1 ,
+    // trailing space 
+    roots
+charz //
+`two words`,	}
+    MetaData int {
+} /// triple")).
+Eval vm_compute in ("<<<M691>>>" ++ check (runes_of_ascii "root packet len // trailing space 
+{
+// " ++ [27880; 37322]%N ++ runes_of_ascii "
+//	t
+char[ ]
+10 metadata	@lengthOf( o ) `crlf
+line`,
+    @rightPad
+( ' '
+) string
+    Header @calculatedFrom( ""a\\""
+    ), }
+")).
+Eval vm_compute in ("<<<M714>>>" ++ check (runes_of_ascii "root packet len // trailing space 
+{
+// " ++ [27880; 37322]%N ++ runes_of_ascii "
+//	t
+char[10
+] metadata	@lengthOf( o ) `crlf
+line`,
+    @rightPad
+( )
+' ' string
+    Header @calculatedFrom( ""a\\""
+    ), }
+")).
+Eval vm_compute in ("<<<M682>>>" ++ check (runes_of_ascii "] packet len // trailing space 
+{
+// " ++ [27880; 37322]%N ++ runes_of_ascii "
+//	t
+char[10
+] metadata	@lengthOf( o ) `crlf
+line`,
+    @rightPad
+( ' '
+) string
+    Header @calculatedFrom( ""a\\""
+    ), }
+")).
+Eval vm_compute in ("<<<M424>>>" ++ check (runes_of_ascii "packet
+    // `tick` ""quote"" 'q'
+    crc
+// packet A { u8 x, }
+//	t
+{
+u32 a1 ,
+    // trailing space 
+    roots
+charz //
+,	}
+    MetaData int {
+} /// triple")).
+Eval vm_compute in ("<<<M1767>>>" ++ check (runes_of_ascii "packet	A
+	{	match	k
+    as
+
+    n { 
+[""a"" , 
+""bb""
+    , ""c c""
+,
+    ""d""
+    ,
+""e""
+
+, ""f""
+	,
+""g"",
+
+    ""h"",
+    ""i""]
+: B
+	, 2	: C },
+
+    }
+
+")).
+Eval vm_compute in ("<<<M297>>>" ++ check (runes_of_ascii "packet
+    // " ++ [27880; 37322]%N ++ runes_of_ascii "
+    Foo
+{ //x
+uint8x
+// " ++ [27880; 37322]%N ++ runes_of_ascii "
+// " ++ [128512]%N ++ runes_of_ascii " emoji
+,match
+len as options1
+// a // b
+// trailing space 
+{ 3 /// triple
+:i64_ , }
 , }
 ")).
-Eval vm_compute in ("<<<M4490>>>" ++ check (runes_of_ascii "
+Eval vm_compute in ("<<<M298>>>" ++ check (runes_of_ascii "MetaData  metadata
+{	char[65535]	x ,
+    // c
+    char[]
+    u128, pack Z9_ , }
+    packet // " ++ [27880; 37322]%N ++ runes_of_ascii "
+a1{ repeat float repeatCount, }
+")).
+Eval vm_compute in ("<<<M572>>>" ++ check (runes_of_ascii "root packet tag { }  packet MetaDataX{char[007	]
+// c
+/// triple
+asx  @calculatedFrom( ""a\""b""
+) `say ""hi""`// " ++ [27880; 37322]%N ++ runes_of_ascii "
+,  @tag(")).
+Eval vm_compute in ("<<<M1253>>>" ++ check (runes_of_ascii "root packet matchKey { zchar[ 3 ] pack @calculatedFrom( ""a	b"" ) `doc` , } options { // c
+} MetaData A { int8 msg_type , }")).
+Eval vm_compute in ("<<<M1990>>>" ++ check (runes_of_ascii "  packet  A
 
-  packet// c
+    {
+	match k  as
+    n
 
-  x
+    {
+	[ 
+1 , 
+22	,
+""c c"" 
+,
+
+    4 , 5
+
+    ,
+""f""  ]
+: B 2 :C },	}
+")).
+Eval vm_compute in ("<<<M423>>>" ++ check (runes_of_ascii "packet
+    // `tick` ""quote"" 'q'
+    crc
+// packet A { u8 x, }
+//	t
+{
+u32 a1 ,
+    // trailing space 
+    roots")).
+Eval vm_compute in ("<<<M24>>>" ++ check (runes_of_ascii "root packet
+    metadata// " ++ [128512]%N ++ runes_of_ascii " emoji
+{ } packet // c
+u
+{@leftPad (
+) repeat char[  4294967296 ] A
+`a\`  ,
+}
+")).
+Eval vm_compute in ("<<<M1922>>>" ++ check (runes_of_ascii "MetaData float {
+    float64 charz `
+        `,
+}
+
+root packet chars {
+    @rightPad('0')
+    Foo,
+}// c")).
+Eval vm_compute in ("<<<M1514>>>" ++ check (runes_of_ascii "  packet
+    FooBar
+{
+u8
+
+a
+, }	packet
+
+foo_bar{
+u16  b	,}
+root
+packet R
 
 {
-	@rightPad
-
-(
-    )
-	repeat  roots
-    Logon `doc` , } ")).
-Eval vm_compute in ("<<<M566>>>" ++ check (runes_of_ascii "packet
-    o{  stringy
-@calculatedFrom( ""a	b"" // packet A { u8 x, }
-),
-}")).
-Eval vm_compute in ("<<<M3044>>>" ++ check (runes_of_ascii "packet A {
-    B b `tab
-	x`,
-    B `tab
-	x`,
-    repeat B bs `tab
-	x`,
-}")).
-Eval vm_compute in ("<<<M231>>>" ++ check (runes_of_ascii "MetaData/// triple
-float {	f64
-    // trailing space 
-    u8x
-`
-` ,	}")).
-Eval vm_compute in ("<<<M3695>>>" ++ check (runes_of_ascii "packet x {
-    @rightPad()
-    // c
-    repeat roots Logon `doc`,
-}")).
-Eval vm_compute in ("<<<M2738>>>" ++ check (runes_of_ascii "i16 0 char[ repeat zchar[ i64 : repeat `tab	here` as int8 { root")).
-Eval vm_compute in ("<<<M2867>>>" ++ check (runes_of_ascii "packet A {
+	FooBar 
+, foo_bar,} ")).
+Eval vm_compute in ("<<<M878>>>" ++ check (runes_of_ascii "packet A {
   match k as n {
-    [1, ""bb""] : B
+    [1, ""bb"", 007, ""d"", 5, ""f"", 7, ""h"", 9, ""j""] : B
     2 : C
   },
 }")).
-Eval vm_compute in ("<<<M2896>>>" ++ check (runes_of_ascii "packet A { Inner { match k as n { [1,22,007,4] : B, }, }, }")).
-Eval vm_compute in ("<<<M3374>>>" ++ check (runes_of_ascii "packet x { @rightPad (
+Eval vm_compute in ("<<<M76>>>" ++ check (runes_of_ascii "MetaData
+chars {
+uint32 chars	`doc` , int64 float, // trailing space 
+u8
+pack `
+` ,
+    }
+")).
+Eval vm_compute in ("<<<M1180>>>" ++ check (runes_of_ascii "MetaData // c
+float { float64 charz `
+` , } root packet chars { @rightPad ( '0' ) Foo , }")).
+Eval vm_compute in ("<<<M1212>>>" ++ check (runes_of_ascii "MetaData float { float64 charz `
+` , } root packet chars { @rightPad ( '0' ) Foo // c
+, }")).
+Eval vm_compute in ("<<<M1423>>>" ++ check (runes_of_ascii "packet chars { } packet MetaDataX { @tag( 42 ) i16 string_ , repeat
 // c
-) repeat roots Logon `doc` , }")).
-Eval vm_compute in ("<<<M1899>>>" ++ check (runes_of_ascii "MetaData
-    u { }  options {
-// c
-// @lengthOf(
-float =")).
-Eval vm_compute in ("<<<M2270>>>" ++ check (runes_of_ascii "options
-{ } options { BodyLength= u16 Header= f64 ;")).
-Eval vm_compute in ("<<<M4577>>>" ++ check (runes_of_ascii "
-
-  packet  /// triple
-  packetx
-
-    {}// " ++ [27880; 37322]%N ++ runes_of_ascii "
-")).
-Eval vm_compute in ("<<<M1034>>>" ++ check (runes_of_ascii "MetaData charz {calculatedFrom leftPad
-    ,}
-")).
-Eval vm_compute in ("<<<M1244>>>" ++ check (runes_of_ascii "MetaData msg_type { zchar[ 65535 ] pack
-,}
-")).
-Eval vm_compute in ("<<<M4545>>>" ++ check (runes_of_ascii "root packet A {
-    u8 x `a
-        b`,
+x `say ""hi""` , }")).
+Eval vm_compute in ("<<<M824>>>" ++ check (runes_of_ascii "packet A {
+  match k as n {
+    [""a"", ""bb"", ""c c"", ""d"", ""e"", ""f""] : B
+    2 : C
+  },
 }")).
-Eval vm_compute in ("<<<M3196>>>" ++ check (runes_of_ascii "root packet u128 {
+Eval vm_compute in ("<<<M1153>>>" ++ check (runes_of_ascii "packet metadata { Logon { A `" ++ [28040; 24687; 31867; 22411]%N ++ runes_of_ascii "` , tag o , } , zchar len
+// c
+`// not a comment` , }")).
+Eval vm_compute in ("<<<M1358>>>" ++ check (runes_of_ascii "packet o { repeat Logon uint8x , } options { // c
+asx = zchar[ 3 ] stringy = '\x00' }")).
+Eval vm_compute in ("<<<M1807>>>" ++ check (runes_of_ascii "packet A {
+    B b `tab
+    	x`,
+    B `tab
+    	x`,
+    repeat B bs `tab
+    	x`,
+}")).
+Eval vm_compute in ("<<<M1319>>>" ++ check (runes_of_ascii "MetaData body { i64 pack `it's` , } // c
+packet stringy { int16 calculatedFrom , }")).
+Eval vm_compute in ("<<<M826>>>" ++ check (runes_of_ascii "packet A {
+  match k as n {
+    [1, ""bb"", 007, ""d"", 5, ""f""] : B
+    2 : C
+  },
+}")).
+Eval vm_compute in ("<<<M822>>>" ++ check (runes_of_ascii "packet A {
+  match k as n {
+    [1, 22, 007, 4, 5, 66] : B
+    2 : C
+  },
+}")).
+Eval vm_compute in ("<<<M2075>>>" ++ check (runes_of_ascii "  packet
+    x
+{
+	@rightPad  ( ) repeat	roots Logon 	 // c
+`doc`
+
+, }
+")).
+Eval vm_compute in ("<<<M919>>>" ++ check (runes_of_ascii "packet A {
+    B b `a
+b`,
+    B `a
+b`,
+    repeat B bs `a
+b`,
+}")).
+Eval vm_compute in ("<<<M773>>>" ++ check (runes_of_ascii "packet A {
+  match k as n {
+    [1, 22] : B,
+    2 : C
+  },
+}")).
+Eval vm_compute in ("<<<M1279>>>" ++ check (runes_of_ascii "packet x
+// c
+{ @rightPad ( ) repeat roots Logon `doc` , }")).
+Eval vm_compute in ("<<<M300>>>" ++ check (runes_of_ascii "
+MetaData trueish // c
+{  string	trueish `it's`	,
+}")).
+Eval vm_compute in ("<<<M1068>>>" ++ check (runes_of_ascii "packet A {} packet B {} MetaData M {} options {}")).
+Eval vm_compute in ("<<<M527>>>" ++ check (runes_of_ascii "root packet tag { }  packet MetaDataX{char[")).
+Eval vm_compute in ("<<<M1107>>>" ++ check (runes_of_ascii "root packet u128 {
 // c
 chars `it's` , }")).
-Eval vm_compute in ("<<<M2619>>>" ++ check (runes_of_ascii "packet A { match k as n { '0' : B }, }")).
-Eval vm_compute in ("<<<M3019>>>" ++ check (runes_of_ascii "packet A {
+Eval vm_compute in ("<<<M930>>>" ++ check (runes_of_ascii "packet A {
     u8 x `a
     b
   c`,
 }")).
-Eval vm_compute in ("<<<M437>>>" ++ check (runes_of_ascii "packet // a // b
-int{ } // a // b")).
-Eval vm_compute in ("<<<M2774>>>" ++ check (runes_of_ascii "= @calculatedFrom( i16 true char[")).
-Eval vm_compute in ("<<<M773>>>" ++ check (runes_of_ascii "MetaData T{
-int64	i8i8 `` , }
-
-")).
-Eval vm_compute in ("<<<M3087>>>" ++ check (runes_of_ascii "packet A {
- u8 x `d" ++ [8192]%N ++ runes_of_ascii "`, // c" ++ [8192]%N ++ runes_of_ascii "
+Eval vm_compute in ("<<<M1606>>>" ++ check (runes_of_ascii "packet A {
+    u8 x `d" ++ [11]%N ++ runes_of_ascii "`,// c" ++ [11]%N ++ runes_of_ascii "
 }")).
-Eval vm_compute in ("<<<M1700>>>" ++ check (runes_of_ascii "options { trueish = ""`tick`""")).
-Eval vm_compute in ("<<<M3149>>>" ++ check (runes_of_ascii "packet A {
-}// a// b// c
-")).
-Eval vm_compute in ("<<<M2622>>>" ++ check (runes_of_ascii "packet A { @tag() u8 x, }")).
-Eval vm_compute in ("<<<M2668>>>" ++ check (runes_of_ascii "options { options = 1; }")).
-Eval vm_compute in ("<<<M3735>>>" ++ check (runes_of_ascii "// a
-// b
+Eval vm_compute in ("<<<M1981>>>" ++ check (runes_of_ascii "packet A {
+    u8 x `
+    `,
+}")).
+Eval vm_compute in ("<<<M108>>>" ++ check (runes_of_ascii "packet  o {  } // " ++ [128512]%N ++ runes_of_ascii " emoji")).
+Eval vm_compute in ("<<<M1382>>>" ++ check (runes_of_ascii "
+// c
+MetaData o { }")).
+Eval vm_compute in ("<<<M992>>>" ++ check (runes_of_ascii "// c" ++ [5760]%N ++ runes_of_ascii "
 packet A {
 }")).
-Eval vm_compute in ("<<<M2667>>>" ++ check (runes_of_ascii "options { a = [1]; }")).
-Eval vm_compute in ("<<<M2771>>>" ++ check (runes_of_ascii "W" ++ [23; 65533]%N ++ runes_of_ascii "-" ++ [65533; 65533; 65533]%N ++ runes_of_ascii ">Dv" ++ [65533; 65533; 65533]%N ++ runes_of_ascii "~>Z" ++ [65533; 65533; 65533]%N)).
-Eval vm_compute in ("<<<M3075>>>" ++ check (runes_of_ascii "packet A {
-}
-// c" ++ [133]%N)).
-Eval vm_compute in ("<<<M194>>>" ++ check (runes_of_ascii "root
-packet u{}
-")).
-Eval vm_compute in ("<<<M4019>>>" ++ check (runes_of_ascii "packet falsey {
-}")).
-Eval vm_compute in ("<<<M536>>>" ++ check (runes_of_ascii "packet _x	{ }
-")).
-Eval vm_compute in ("<<<M2559>>>" ++ check (runes_of_ascii """" ++ [233]%N ++ runes_of_ascii """ `" ++ [21517]%N ++ runes_of_ascii "` // " ++ [252]%N)).
-Eval vm_compute in ("<<<M2482>>>" ++ check (runes_of_ascii "@leftPad(")).
-Eval vm_compute in ("<<<M2462>>>" ++ check (runes_of_ascii "packets")).
-Eval vm_compute in ("<<<M2338>>>" ++ check (runes_of_ascii "// c
-")).
-Eval vm_compute in ("<<<M3109>>>" ++ check (runes_of_ascii "// c" ++ [8287]%N)).
-Eval vm_compute in ("<<<M2682>>>" ++ check (runes_of_ascii "
-	 ")).
-Eval vm_compute in ("<<<M2552>>>" ++ check (runes_of_ascii "a" ++ [8232]%N ++ runes_of_ascii "b")).
-Eval vm_compute in ("<<<M2826>>>" ++ check (runes_of_ascii "Yn")).
+Eval vm_compute in ("<<<M974>>>" ++ check (runes_of_ascii "packet A {
+}// c" ++ [12288]%N)).
+Eval vm_compute in ("<<<M765>>>" ++ check (runes_of_ascii "T5 y!?""5s|e^*")).
+Eval vm_compute in ("<<<M980>>>" ++ check (runes_of_ascii "// c" ++ [160]%N)).
+Eval vm_compute in ("<<<M729>>>" ++ check ([65279]%N)).
